@@ -317,7 +317,8 @@ Proof.
   unfold as_identifier. pose proof (str_filter_forall is_ident_char n) as H.
   destruct (str_filter is_ident_char n) as [|c r]; [reflexivity|].
   change (String.eqb (String c r) "") with false. cbv iota. destruct (is_digit c); [|assumption].
-  cbn [str_forall]. now rewrite H.
+  change (str_forall is_ident_char (String "_" (String c r))) with (is_ident_char "_" && str_forall is_ident_char (String c r)).
+  now rewrite H.
 Qed.
 Lemma as_identifier_nonempty n : as_identifier n <> "".
 Proof.
@@ -390,3 +391,1580 @@ Proof.
   destruct c as [b0 b1 b2 b3 b4 b5 b6 b7].
   destruct b0, b1, b2, b3, b4, b5, b6, b7; try exact G; discriminate HC.
 Qed.
+
+(* ================================================================================================ lines *)
+(* keys: not empty, no colon, no "#"/newline, no outer whitespace *)
+Definition key_okb (k : string) : bool :=
+  nonempty k && str_forall not_colon k && str_forall plain k && String.eqb (lstrip k) k && String.eqb (rstrip k) k.
+Definition value_okb (v : string) : bool :=
+  str_forall plain v && String.eqb (lstrip v) v && String.eqb (rstrip v) v.
+
+Lemma key_parts k : key_okb k = true ->
+  k <> "" /\ str_forall not_colon k = true /\ str_forall plain k = true /\ lstrip k = k /\ rstrip k = k.
+Proof.
+  unfold key_okb. rewrite !andb_true_iff, !String.eqb_eq, nonempty_true. tauto.
+Qed.
+Lemma value_parts v : value_okb v = true -> str_forall plain v = true /\ lstrip v = v /\ rstrip v = v.
+Proof. unfold value_okb. rewrite !andb_true_iff, !String.eqb_eq. tauto. Qed.
+Lemma value_okb_intro v : str_forall plain v = true -> lstrip v = v -> rstrip v = v -> value_okb v = true.
+Proof. intros A B C. unfold value_okb. rewrite A, B, C, !String.eqb_refl. reflexivity. Qed.
+Lemma plain_not_hash s : str_forall plain s = true -> str_forall not_hash s = true.
+Proof. apply str_forall_impl. intros c. unfold plain, not_hash. rewrite andb_true_iff. tauto. Qed.
+Lemma value_strip v : value_okb v = true -> strip v = v.
+Proof. intros H. destruct (value_parts v H) as (_ & A & B). now apply strip_ok. Qed.
+Lemma token_value t : tokenb t = true -> value_okb t = true.
+Proof. intros H. apply value_okb_intro; auto using token_plain, token_lstrip, token_rstrip. Qed.
+Lemma tokens_value toks : Forall (fun t => tokenb t = true) toks -> value_okb (join " " toks) = true.
+Proof. intros H. apply value_okb_intro; auto using join_tokens_plain, join_tokens_lstrip, join_tokens_rstrip. Qed.
+
+Lemma kv_nonempty k v : k <> "" -> kv k v <> "".
+Proof. unfold kv. intros Hk. destruct (String.eqb v ""); intros E; apply sapp_eq_nil in E; tauto. Qed.
+Lemma kv_plain k v : str_forall plain k = true -> str_forall plain v = true -> str_forall plain (kv k v) = true.
+Proof.
+  intros Hk Hv. unfold kv. destruct (String.eqb v ""); rewrite !str_forall_app, Hk; [reflexivity|].
+  rewrite Hv. reflexivity.
+Qed.
+Lemma kv_strip k v : key_okb k = true -> value_okb v = true -> strip (kv k v) = kv k v.
+Proof.
+  intros Hk Hv. destruct (key_parts k Hk) as (K1 & K2 & K3 & K4 & K5). destruct (value_parts v Hv) as (V1 & V2 & V3).
+  apply strip_ok.
+  - unfold kv. destruct (String.eqb v ""); now apply lstrip_app.
+  - unfold kv. destruct (String.eqb_spec v "") as [E|NE].
+    + apply rstrip_app; [discriminate|reflexivity].
+    + change (k +++ ": " +++ v) with (k +++ (": " +++ v)). rewrite <- sapp_assoc. now apply rstrip_app.
+Qed.
+Lemma clean_kv (ind : bool) k v : key_okb k = true -> value_okb v = true ->
+  clean_line ((if ind then indent else "") +++ kv k v) = kv k v.
+Proof.
+  intros Hk Hv. destruct (key_parts k Hk) as (K1 & K2 & K3 & K4 & K5). destruct (value_parts v Hv) as (V1 & V2 & V3).
+  unfold clean_line. rewrite cut_comment_id.
+  - destruct ind; [rewrite strip_indent|cbn [String.append]]; now apply kv_strip.
+  - apply plain_not_hash. rewrite str_forall_app, kv_plain by assumption. now destruct ind.
+Qed.
+Lemma clean_kv0 k v : key_okb k = true -> value_okb v = true -> clean_line (kv k v) = kv k v.
+Proof. intros Hk Hv. exact (clean_kv false k v Hk Hv). Qed.
+Lemma clean_kv1 k v : key_okb k = true -> value_okb v = true -> clean_line (indent +++ kv k v) = kv k v.
+Proof. intros Hk Hv. exact (clean_kv true k v Hk Hv). Qed.
+Lemma key_value_kv k v : key_okb k = true -> value_okb v = true -> key_value (kv k v) = Ok (k, k, v).
+Proof.
+  intros Hk Hv. destruct (key_parts k Hk) as (K1 & K2 & K3 & K4 & K5).
+  unfold key_value. rewrite (clean_kv0 k v Hk Hv). unfold kv. destruct (String.eqb_spec v "") as [E|NE].
+  - change (k +++ ":") with (k +++ String ":" ""). rewrite split_colon_app by assumption. subst v.
+    rewrite (strip_ok k K4 K5). reflexivity.
+  - change (k +++ ": " +++ v) with (k +++ String ":" (" " +++ v)). rewrite split_colon_app by assumption.
+    rewrite (strip_ok k K4 K5), strip_space, (value_strip v Hv). reflexivity.
+Qed.
+
+(* a block as a list of (key, value) pairs *)
+Definition kvline (p : string * string) : string := kv (fst p) (snd p).
+Definition iline (p : string * string) : string := indent +++ kvline p.
+Definition pair_ok (p : string * string) : Prop := key_okb (fst p) = true /\ value_okb (snd p) = true.
+
+Section Fold.
+  Variable S : Type.
+  Variable f : string -> string -> string -> S -> result S.
+  Fixpoint fold_pairs (ps : list (string * string)) (s : S) : result S :=
+    match ps with [] => Ok s | (k, v) :: r => do s' <- f k k v s; fold_pairs r s' end.
+  Lemma fold_block_pairs ps s : Forall pair_ok ps -> fold_block f (map kvline ps) s = fold_pairs ps s.
+  Proof.
+    revert s. induction ps as [|[k v] r IH]; intros s HF; [reflexivity|]. inversion_clear HF as [|? ? [Hk Hv] Hr].
+    cbn [map fold_block fold_pairs]. change (kvline (k, v)) with (kv k v). cbn [fst snd] in *.
+    rewrite (clean_kv0 k v Hk Hv). destruct (key_parts k Hk) as (K1 & _).
+    destruct (String.eqb_spec (kv k v) "") as [E|_]; [now apply kv_nonempty in E|].
+    rewrite key_value_kv by assumption. cbn [bind]. destruct (f k k v s); cbn [bind]; [now apply IH|reflexivity].
+  Qed.
+  Lemma fold_pairs_app a b s : fold_pairs (a ++ b) s = do s' <- fold_pairs a s; fold_pairs b s'.
+  Proof.
+    revert s. induction a as [|[k v] r IH]; intros s; [reflexivity|]. simpl.
+    destruct (f k k v s); simpl; [apply IH|reflexivity].
+  Qed.
+End Fold.
+Arguments fold_pairs {S} f ps s.
+Arguments fold_block_pairs {S} f ps s _.
+Arguments fold_pairs_app {S} f a b s.
+
+(* ================================================================================================ list helpers *)
+Lemma firstn_exact {A} (l r : list A) : firstn (List.length l) (l ++ r) = l.
+Proof. induction l; cbn; [now destruct r|now rewrite IHl]. Qed.
+Lemma nth_exact {A} (l : list A) x dflt : nth (List.length l) (l ++ [x]) dflt = x.
+Proof. induction l; cbn; auto. Qed.
+Lemma last_app1 {A} (l : list A) x dflt : last (l ++ [x]) dflt = x.
+Proof. apply last_last. Qed.
+Lemma removelast_app1 {A} (l : list A) x : removelast (l ++ [x]) = l.
+Proof. apply removelast_last. Qed.
+Lemma even_app1 {A} (l : list A) x : Nat.even (List.length (l ++ [x])) = negb (Nat.even (List.length l)).
+Proof. rewrite app_length. cbn [List.length]. rewrite Nat.add_1_r, Nat.even_succ, <- Nat.negb_even. reflexivity. Qed.
+
+(* the generated term table: class names are tokens (checked by computation on every build) *)
+Definition row_name (r : string * nat * bool * bool * bool) : string := fst (fst (fst (fst r))).
+Lemma term_table_names : forallb (fun r => tokenb (row_name r)) term_table = true.
+Proof. vm_compute. reflexivity. Qed.
+Lemma lookup_term_spec cls r : lookup_term cls = Some r -> row_name r = cls /\ tokenb cls = true.
+Proof.
+  unfold lookup_term. intros H. apply find_some in H. destruct H as [HI HE]. apply String.eqb_eq in HE.
+  split; [exact HE|]. pose proof term_table_names as T. rewrite forallb_forall in T. specialize (T r HI).
+  unfold row_name in T. now rewrite HE in T.
+Qed.
+
+(* ================================================================================================ the round trip *)
+Section RoundTrip.
+  Variable num : Type.
+  Variable fmt : nat -> num -> string.
+  Variable parse : string -> option num.
+  Variable round : nat -> num -> num.
+  Variable close1 : num -> bool.
+  Variables n_nan n_pinf n_ninf n_one n_zero : num.
+  (* A-fmt: printing then parsing rounds; printing does not see the rounding; printed numbers are tokens *)
+  Hypothesis parse_fmt : forall d x, parse (fmt d x) = Some (round d x).
+  Hypothesis fmt_round : forall d x, fmt d (round d x) = fmt d x.
+  Hypothesis round_idem : forall d x, round d (round d x) = round d x.
+  Hypothesis fmt_token : forall d x, tokenb (fmt d x) = true.
+  Hypothesis close1_one : close1 n_one = true.
+  Variable d : nat.
+
+  Local Notation tok := (fun t : string => tokenb t = true).
+  Local Notation normh := (norm_h round close1 n_one d).
+  Local Notation hpart := (height_part fmt close1 d).
+
+  (* ---- numbers *)
+  Lemma fmt_tokens xs : Forall tok (map (fmt d) xs).
+  Proof. induction xs; constructor; auto. Qed.
+  Lemma hpart_tokens h : Forall tok (hpart h).
+  Proof. unfold height_part. destruct (close1 h); repeat constructor; auto. Qed.
+  Lemma parse_all_fmt xs : parse_all parse (map (fmt d) xs) = Ok (map (round d) xs).
+  Proof. induction xs as [|x r IH]; [reflexivity|]. cbn [map parse_all]. rewrite parse_fmt, IH. reflexivity. Qed.
+  Lemma parse_num_fmt x : parse_num parse (fmt d x) = Ok (round d x).
+  Proof. unfold parse_num. now rewrite parse_fmt. Qed.
+  Lemma hpart_map h : hpart h = map (fmt d) (if close1 h then [] else [h]).
+  Proof. unfold height_part. now destruct (close1 h). Qed.
+  Lemma params_split ps h :
+    split_ws (join " " (map (fmt d) ps ++ hpart h)) = map (fmt d) (ps ++ (if close1 h then [] else [h])).
+  Proof. rewrite hpart_map, <- map_app. apply split_ws_join. apply fmt_tokens. Qed.
+
+  (* ---- Term._parse after Term._parameters *)
+  Lemma shape_params_roundtrip ps h arity hh :
+    List.length ps = arity -> (hh = true \/ close1 h = true) ->
+    parse_shape_params parse n_one arity hh (join " " (map (fmt d) ps ++ hpart h))
+    = Ok (map (round d) ps, if hh then normh h else n_one).
+  Proof.
+    intros HL HH. unfold parse_shape_params. rewrite params_split, parse_all_fmt. cbn [bind]. unfold norm_h.
+    assert (L : List.length (map (round d) ps) = arity) by now rewrite map_length.
+    destruct (close1 h) eqn:C.
+    - rewrite app_nil_r. destruct hh; cbn [andb].
+      + rewrite L, Nat.eqb_refl. rewrite app_length, L. cbn [List.length]. rewrite Nat.eqb_refl.
+        rewrite <- L. now rewrite firstn_exact, nth_exact.
+      + rewrite L, Nat.add_0_r, Nat.eqb_refl. rewrite <- L, firstn_all. reflexivity.
+    - destruct HH as [->|HH]; [|congruence]. cbn [andb]. rewrite map_app. cbn [map].
+      rewrite app_length, L. cbn [List.length].
+      replace (Nat.eqb (arity + 1) arity) with false by (symmetry; apply Nat.eqb_neq; lia).
+      rewrite app_length, L. cbn [List.length]. rewrite Nat.eqb_refl.
+      rewrite <- L. now rewrite firstn_exact, nth_exact.
+  Qed.
+
+  (* ---- values made of a token, a blank and a clean rest *)
+  Lemma value_prefix a rest :
+    tokenb a = true -> rest <> "" -> str_forall plain rest = true -> rstrip rest = rest ->
+    value_okb (a +++ " " +++ rest) = true.
+  Proof.
+    intros Ha Hne Hp Hr. destruct (token_parts a Ha) as (A1 & _). apply value_okb_intro.
+    - rewrite !str_forall_app, (token_plain a Ha), Hp. reflexivity.
+    - apply lstrip_app; [assumption|now apply token_lstrip].
+    - rewrite <- sapp_assoc. now apply rstrip_app.
+  Qed.
+  Lemma join2 a b : join " " [a; b] = a +++ " " +++ b.
+  Proof. reflexivity. Qed.
+  Lemma join3 a b c : join " " [a; b; c] = a +++ " " +++ b +++ " " +++ c.
+  Proof. reflexivity. Qed.
+  Lemma split2_params n a b p : tokenb a = true -> tokenb b = true ->
+    split_max (S (S n)) (a +++ " " +++ b +++ " " +++ p) = a :: b :: split_max n p.
+  Proof. intros Ha Hb. now rewrite !split_max_step. Qed.
+  Lemma split2_noparams a b : tokenb a = true -> tokenb b = true -> split_max 2 (a +++ " " +++ b) = [a; b].
+  Proof. intros Ha Hb. rewrite split_max_step by assumption. now rewrite split_max_last. Qed.
+
+  (* ---- terms *)
+  Local Notation tparams := (term_params fmt close1 d).
+  Local Notation normt := (normalize_term round close1 n_one d).
+  Local Notation imp_term := (import_term parse n_nan n_one).
+  Definition term_value (t : fll_term num) : string :=
+    join " " (filter nonempty [as_identifier (ft_name t); ft_class t; tparams t]).
+
+  Lemma nonempty_ident n : nonempty (as_identifier n) = true.
+  Proof. apply nonempty_true, as_identifier_nonempty. Qed.
+  Lemma term_value_cases t : ft_class t <> "" ->
+    term_value t = if nonempty (tparams t) then as_identifier (ft_name t) +++ " " +++ ft_class t +++ " " +++ tparams t
+                   else as_identifier (ft_name t) +++ " " +++ ft_class t.
+  Proof.
+    intros Hc. unfold term_value. cbn [filter]. rewrite nonempty_ident.
+    replace (nonempty (ft_class t)) with true by (symmetry; now apply nonempty_true).
+    destruct (nonempty (tparams t)); reflexivity.
+  Qed.
+  Lemma term_line_kv t : ft_class t <> "" -> term_line fmt close1 d t = kv "term" (term_value t).
+  Proof.
+    intros Hc. unfold term_line. fold (term_value t) . unfold term_value. cbn [filter]. rewrite nonempty_ident.
+    replace (nonempty (ft_class t)) with true by (symmetry; now apply nonempty_true).
+    set (l := if nonempty (tparams t) then [tparams t] else []).
+    replace (as_identifier (ft_name t) :: ft_class t :: (if nonempty (tparams t) then [tparams t] else []))
+      with (as_identifier (ft_name t) :: ft_class t :: l) by reflexivity.
+    rewrite join_cons2. unfold kv.
+    destruct (String.eqb_spec (join " " (as_identifier (ft_name t) :: ft_class t :: l)) "") as [E|_]; [|reflexivity].
+    rewrite join_cons2 in E. apply sapp_eq_nil in E. destruct E as [E _]. now apply as_identifier_nonempty in E.
+  Qed.
+
+  Lemma flatten_length (xy : list (num * num)) : Nat.even (List.length (flatten_xy xy)) = true.
+  Proof. induction xy as [|[x y] r IH]; [reflexivity|]. cbn [flatten_xy List.length]. exact IH. Qed.
+  Lemma pairs_flatten (xy : list (num * num)) :
+    pairs_of (map (round d) (flatten_xy xy)) = map (fun p => (round d (fst p), round d (snd p))) xy.
+  Proof. induction xy as [|[x y] r IH]; [reflexivity|]. cbn [flatten_xy map pairs_of fst snd]. now rewrite IH. Qed.
+
+  (* the parameters of a term: "" or a clean text *)
+  Lemma tokens_params_ok L : Forall tok L -> L <> [] ->
+    join " " L <> "" /\ str_forall plain (join " " L) = true /\ rstrip (join " " L) = join " " L /\ lstrip (join " " L) = join " " L.
+  Proof.
+    intros HL Hne. repeat split; auto using join_tokens_plain, join_tokens_rstrip, join_tokens_lstrip.
+    intros E. now apply join_nil_iff in E.
+  Qed.
+  Lemma nonempty_join L : Forall tok L -> nonempty (join " " L) = match L with [] => false | _ => true end.
+  Proof.
+    intros HL. destruct L as [|a r]; [reflexivity|]. apply nonempty_true. intros E. now apply join_nil_iff in E.
+  Qed.
+
+  Lemma discrete_params xy h :
+    tparams (FDiscrete "" xy h) =
+    match xy with
+    | [] => if close1 h then "" else " " +++ fmt d h
+    | _ => join " " (map (fmt d) (flatten_xy xy ++ (if close1 h then [] else [h])))
+    end.
+  Proof.
+    cbn [term_params]. destruct xy as [|[x y] r].
+    - cbn [flatten_xy map join]. unfold height_part. destruct (close1 h); reflexivity.
+    - rewrite join_join by (cbn; discriminate). rewrite hpart_map, <- map_app. reflexivity.
+  Qed.
+
+  Lemma params_ok t : wf_term close1 t = true -> nonempty (tparams t) = true ->
+    str_forall plain (tparams t) = true /\ rstrip (tparams t) = tparams t.
+  Proof.
+    intros W Hne. destruct t as [n c ps h|n xy h|n cs h|n f h].
+    - cbn [term_params] in *. assert (HL : Forall tok (map (fmt d) ps ++ hpart h)) by (apply Forall_app; auto using fmt_tokens, hpart_tokens).
+      rewrite nonempty_join in Hne by assumption. destruct (map (fmt d) ps ++ hpart h) eqn:E; [discriminate|].
+      rewrite <- E in *. destruct (tokens_params_ok _ HL) as (_ & A & B & _); [congruence|auto].
+    - change (tparams (FDiscrete n xy h)) with (tparams (FDiscrete "" xy h)) in *. rewrite discrete_params in *.
+      destruct xy as [|p r].
+      + destruct (close1 h); [discriminate|]. split.
+        * rewrite str_forall_app. cbn [str_forall]. now rewrite (token_plain _ (fmt_token d h)).
+        * change (" " +++ fmt d h) with (" " +++ fmt d h). apply rstrip_app; [|now apply token_rstrip].
+          now destruct (token_parts _ (fmt_token d h)).
+      + assert (HL : Forall tok (map (fmt d) (flatten_xy (p :: r) ++ (if close1 h then [] else [h])))) by apply fmt_tokens.
+        destruct (tokens_params_ok _ HL) as (_ & A & B & _); [destruct p; cbn; discriminate|auto].
+    - cbn [term_params] in *. assert (HL : Forall tok (map (fmt d) cs ++ hpart h)) by (apply Forall_app; auto using fmt_tokens, hpart_tokens).
+      rewrite nonempty_join in Hne by assumption. destruct (map (fmt d) cs ++ hpart h) eqn:E; [discriminate|].
+      rewrite <- E in *. destruct (tokens_params_ok _ HL) as (_ & A & B & _); [congruence|auto].
+    - cbn [term_params] in *. unfold wf_term in W. rewrite !andb_true_iff in W. destruct W as [_ [W _]].
+      unfold value_ok in W. rewrite !andb_true_iff, !String.eqb_eq in W. tauto.
+  Qed.
+
+  Lemma wf_term_class t : wf_term close1 t = true -> tokenb (ft_class t) = true.
+  Proof.
+    intros W. destruct t as [n c ps h|n xy h|n cs h|n f h]; try reflexivity.
+    unfold wf_term in W. rewrite !andb_true_iff in W. destruct W as [_ [_ W]]. cbn [ft_class].
+    destruct (lookup_term c) as [r|] eqn:L; [|discriminate]. now destruct (lookup_term_spec c r L).
+  Qed.
+  Lemma wf_term_name t : wf_term close1 t = true -> ident_ok (ft_name t) = true.
+  Proof. unfold wf_term. rewrite andb_true_iff. tauto. Qed.
+
+  Lemma term_value_ok t : wf_term close1 t = true -> value_okb (term_value t) = true.
+  Proof.
+    intros W. pose proof (wf_term_class t W) as HC. pose proof (wf_term_name t W) as HN.
+    destruct (token_parts _ HC) as (C1 & _).
+    rewrite term_value_cases by assumption. rewrite (ident_ok_id _ HN). pose proof (ident_token _ HN) as TN.
+    destruct (nonempty (tparams t)) eqn:E.
+    - destruct (params_ok t W E) as [A B]. apply nonempty_true in E. apply value_prefix; auto.
+      + intros X. apply sapp_eq_nil in X. tauto.
+      + rewrite !str_forall_app, (token_plain _ HC), A. reflexivity.
+      + rewrite <- sapp_assoc. now apply rstrip_app.
+    - apply value_prefix; auto using token_plain, token_rstrip.
+  Qed.
+
+  Lemma import_term_roundtrip t : wf_term close1 t = true -> imp_term "term" (term_value t) = Ok (normt t).
+  Proof.
+    intros W. pose proof (wf_term_class t W) as HC. pose proof (wf_term_name t W) as HN.
+    destruct (token_parts _ HC) as (C1 & _). pose proof (ident_token _ HN) as TN.
+    unfold import_term. cbn [String.eqb Ascii.eqb Bool.eqb negb].
+    rewrite term_value_cases by assumption. rewrite (ident_ok_id _ HN).
+    destruct t as [n c ps h|n xy h|n cs h|n f h]; cbn [ft_name ft_class] in *.
+    - (* a class of the generated table *)
+      unfold wf_term in W. cbn [ft_name] in W. rewrite !andb_true_iff, negb_true_iff in W. destruct W as [_ [SP W]].
+      destruct (lookup_term c) as [r|] eqn:L; [|discriminate]. rewrite andb_true_iff, Nat.eqb_eq, orb_true_iff in W.
+      destruct W as [HL HH]. unfold is_special_class in SP. rewrite !orb_false_iff in SP. destruct SP as [[S1 S2] S3].
+      cbn [term_params]. assert (HT : Forall tok (map (fmt d) ps ++ hpart h)) by (apply Forall_app; auto using fmt_tokens, hpart_tokens).
+      rewrite nonempty_join by assumption. destruct (map (fmt d) ps ++ hpart h) as [|x l] eqn:E.
+      + rewrite split2_noparams by assumption. rewrite (ident_ok_id _ HN). unfold construct_term. rewrite S1, S2, S3, L.
+        apply app_eq_nil in E. destruct E as [E1 E2]. apply map_eq_nil in E1. subst ps. cbn [List.length] in HL. rewrite <- HL.
+        cbn [repeat normalize_term map]. rewrite L. unfold norm_h. unfold height_part in E2.
+        destruct (close1 h); [|discriminate]. now destruct (row_height r).
+      + rewrite <- E in HT |- *. destruct (tokens_params_ok _ HT) as (P1 & _ & _ & P4); [congruence|].
+        rewrite split2_params by assumption. rewrite split_max_0 by assumption. rewrite (ident_ok_id _ HN).
+        unfold construct_term. rewrite S1, S2, S3, L. rewrite shape_params_roundtrip by auto. cbn [bind fst snd normalize_term].
+        now rewrite L.
+    - (* Discrete *)
+      change (tparams (FDiscrete n xy h)) with (tparams (FDiscrete "" xy h)). rewrite discrete_params.
+      cbn [normalize_term]. unfold norm_h. destruct xy as [|p r].
+      + destruct (close1 h) eqn:C.
+        * cbn [nonempty String.eqb negb]. rewrite split2_noparams by auto. now rewrite (ident_ok_id _ HN).
+        * change (nonempty (" " +++ fmt d h)) with true. cbv iota.
+          rewrite split2_params by auto. cbn [split_max]. rewrite lstrip_space, (token_lstrip _ (fmt_token d h)).
+          destruct (fmt d h) eqn:F; [now destruct (token_parts _ (fmt_token d h))|]. rewrite <- F.
+          rewrite (ident_ok_id _ HN). unfold construct_term. cbn [String.eqb Ascii.eqb Bool.eqb].
+          unfold configure_discrete. replace (split_ws (fmt d h)) with [fmt d h]
+            by (symmetry; apply (split_ws_join [fmt d h]); repeat constructor; auto).
+          cbn [List.length Nat.even last removelast parse_all]. rewrite parse_num_fmt. reflexivity.
+      + set (L := map (fmt d) (flatten_xy (p :: r) ++ (if close1 h then [] else [h]))).
+        assert (HT : Forall tok L) by apply fmt_tokens.
+        destruct (tokens_params_ok _ HT) as (P1 & _ & _ & P4); [unfold L; destruct p; cbn; discriminate|].
+        replace (nonempty (join " " L)) with true by (symmetry; now apply nonempty_true). cbv iota.
+        rewrite split2_params by auto. rewrite split_max_0 by assumption. rewrite (ident_ok_id _ HN).
+        unfold construct_term. cbn [String.eqb Ascii.eqb Bool.eqb]. unfold configure_discrete.
+        rewrite (split_ws_join L HT). unfold L. destruct (close1 h) eqn:C.
+        * rewrite app_nil_r, map_length, flatten_length, parse_all_fmt. cbn [bind]. now rewrite pairs_flatten.
+        * rewrite map_app. cbn [map]. rewrite even_app1, map_length, flatten_length. cbn [negb].
+          rewrite last_app1, removelast_app1, parse_num_fmt, parse_all_fmt. cbn [bind]. now rewrite pairs_flatten.
+    - (* Linear *)
+      cbn [term_params normalize_term]. assert (HT : Forall tok (map (fmt d) cs ++ hpart h)) by (apply Forall_app; auto using fmt_tokens, hpart_tokens).
+      rewrite nonempty_join by assumption. destruct (map (fmt d) cs ++ hpart h) as [|x l] eqn:E.
+      + rewrite split2_noparams by auto. rewrite (ident_ok_id _ HN). unfold construct_term. cbn [String.eqb Ascii.eqb Bool.eqb].
+        apply app_eq_nil in E. destruct E as [E1 E2]. apply map_eq_nil in E1. subst cs. unfold height_part in E2.
+        destruct (close1 h); [reflexivity|discriminate].
+      + rewrite <- E in HT |- *. destruct (tokens_params_ok _ HT) as (P1 & _ & _ & P4); [congruence|].
+        rewrite split2_params by auto. rewrite split_max_0 by assumption. rewrite (ident_ok_id _ HN).
+        unfold construct_term. cbn [String.eqb Ascii.eqb Bool.eqb]. rewrite params_split, parse_all_fmt. cbn [bind].
+        rewrite map_app. now destruct (close1 h).
+    - (* Function *)
+      cbn [term_params normalize_term]. unfold wf_term in W. rewrite !andb_true_iff in W. destruct W as [_ [W1 W2]].
+      rewrite W2. unfold value_ok in W1. rewrite !andb_true_iff, !String.eqb_eq in W1. destruct W1 as [[_ V2] _].
+      apply nonempty_true in W2. rewrite split2_params by auto. rewrite split_max_0 by assumption. rewrite (ident_ok_id _ HN).
+      reflexivity.
+  Qed.
+
+  (* ---- booleans, ranges, operators *)
+  Lemma import_bool_fmt b : import_bool (fmt_bool b) = Ok b.
+  Proof. now destruct b. Qed.
+  Lemma import_range_fmt lo hi :
+    import_range parse (join_nonempty [fmt d lo; fmt d hi]) = Ok (round d lo, round d hi).
+  Proof.
+    assert (N : forall x, nonempty (fmt d x) = true) by (intros x; apply nonempty_true; now destruct (token_parts _ (fmt_token d x))).
+    unfold join_nonempty. cbn [filter]. rewrite !N.
+    unfold import_range. rewrite (split_ws_join [fmt d lo; fmt d hi]) by (repeat constructor; auto).
+    now rewrite !parse_num_fmt.
+  Qed.
+  Lemma import_tnorm_text n : import_tnorm (tnorm_text n) = Ok n.
+  Proof. destruct n as [n|]; [destruct n|]; reflexivity. Qed.
+  Lemma import_snorm_text n : import_snorm (snorm_text n) = Ok n.
+  Proof. destruct n as [n|]; [destruct n|]; reflexivity. Qed.
+
+  (* ---- defuzzifiers *)
+  Lemma join_nonempty2 a b : a <> "" -> join_nonempty [a; b] = if nonempty b then a +++ " " +++ b else a.
+  Proof.
+    intros Ha. unfold join_nonempty. cbn [filter]. rewrite (proj2 (nonempty_true a) Ha). now destruct (nonempty b).
+  Qed.
+  Lemma integral_name_token k : tokenb (integral_name k) = true.
+  Proof. now destruct k. Qed.
+  Lemma find_integral k : find_named integral_name all_integral (integral_name k) = Some k.
+  Proof. now destruct k. Qed.
+  Lemma blank_or_none_app a rest : tokenb a = true -> String.eqb a "none" = false ->
+    String.eqb (a +++ " " +++ rest) "" || String.eqb (a +++ " " +++ rest) "none" = false.
+  Proof.
+    intros Ha Hn. destruct (token_parts a Ha) as (A1 & A2 & _). apply orb_false_iff. split.
+    - apply String.eqb_neq. intros E. apply sapp_eq_nil in E. tauto.
+    - apply String.eqb_neq. intros E.
+      assert (H : split_max 1 (a +++ " " +++ rest) = split_max 1 "none") by now rewrite E.
+      rewrite split_max_step in H by assumption. cbn in H. injection H as H _. subst a. discriminate.
+  Qed.
+  Lemma import_defuzzifier_text f : import_defuzzifier (defuzzifier_text f) = Ok f.
+  Proof.
+    destruct f as [f|]; [|reflexivity]. unfold defuzzifier_text.
+    destruct f as [k r|a t].
+    - cbn [defuzzifier_class defuzzifier_params]. rewrite join_nonempty2 by (now destruct k).
+      destruct (Z.eqb_spec r default_resolution) as [->|NE].
+      + now destruct k.
+      + rewrite (proj2 (nonempty_true _) (string_of_Z_nonempty r)). unfold import_defuzzifier.
+        rewrite blank_or_none_app by (now destruct k).
+        rewrite split_max_step by apply integral_name_token. rewrite split_max_0
+          by (auto using token_lstrip, string_of_Z_token, string_of_Z_nonempty).
+        unfold construct_defuzzifier. rewrite find_integral. cbn [bind configure_defuzzifier].
+        unfold parse_int. now rewrite Z_of_string_of_Z.
+    - destruct a, t; reflexivity.
+  Qed.
+
+  (* ---- activation methods *)
+  Local Notation imp_act := (import_activation parse n_zero).
+  Lemma two_tokens_join a b : tokenb a = true -> tokenb b = true -> two_tokens (a +++ " " +++ b) = Ok (a, b).
+  Proof.
+    intros Ha Hb. unfold two_tokens. change (a +++ " " +++ b) with (join " " [a; b]).
+    rewrite (split_ws_join [a; b]) by (repeat constructor; auto). reflexivity.
+  Qed.
+  Lemma comparator_token c : tokenb (comparator_name c) = true.
+  Proof. now destruct c. Qed.
+  Lemma find_comparator c : find_named comparator_name all_comparators (comparator_name c) = Some c.
+  Proof. now destruct c. Qed.
+  Lemma import_activation_text a : imp_act (activation_text fmt d a) = Ok (option_map (normalize_activation round d) a).
+  Proof.
+    destruct a as [a|]; [|reflexivity]. unfold activation_text, import_activation.
+    destruct a as [|n t|n t|n|n| |c t]; cbn [activation_class activation_params option_map normalize_activation]; try reflexivity.
+    - rewrite join_nonempty2 by discriminate.
+      assert (T : tokenb (string_of_Z n) = true) by apply string_of_Z_token. destruct (token_parts _ T) as (T1 & _).
+      replace (nonempty (string_of_Z n +++ " " +++ fmt d t)) with true
+        by (symmetry; apply nonempty_true; intros E; apply sapp_eq_nil in E; tauto).
+      rewrite blank_or_none_app by reflexivity. rewrite split_max_step by reflexivity.
+      rewrite split_max_0 by (try apply lstrip_app; auto using token_lstrip; intros E; apply sapp_eq_nil in E; tauto).
+      cbn [construct_activation String.eqb Ascii.eqb Bool.eqb bind configure_activation].
+      rewrite two_tokens_join by auto. cbn [bind fst snd]. unfold parse_int. rewrite Z_of_string_of_Z. cbn [bind].
+      now rewrite parse_num_fmt.
+    - rewrite join_nonempty2 by discriminate.
+      assert (T : tokenb (string_of_Z n) = true) by apply string_of_Z_token. destruct (token_parts _ T) as (T1 & _).
+      replace (nonempty (string_of_Z n +++ " " +++ fmt d t)) with true
+        by (symmetry; apply nonempty_true; intros E; apply sapp_eq_nil in E; tauto).
+      rewrite blank_or_none_app by reflexivity. rewrite split_max_step by reflexivity.
+      rewrite split_max_0 by (try apply lstrip_app; auto using token_lstrip; intros E; apply sapp_eq_nil in E; tauto).
+      cbn [construct_activation String.eqb Ascii.eqb Bool.eqb bind configure_activation].
+      rewrite two_tokens_join by auto. cbn [bind fst snd]. unfold parse_int. rewrite Z_of_string_of_Z. cbn [bind].
+      now rewrite parse_num_fmt.
+    - rewrite join_nonempty2 by discriminate.
+      assert (T : tokenb (string_of_Z n) = true) by apply string_of_Z_token. destruct (token_parts _ T) as (T1 & _).
+      rewrite (proj2 (nonempty_true _) T1). rewrite blank_or_none_app by reflexivity. rewrite split_max_step by reflexivity.
+      rewrite split_max_0 by auto using token_lstrip.
+      cbn [construct_activation String.eqb Ascii.eqb Bool.eqb bind configure_activation].
+      unfold parse_int. now rewrite Z_of_string_of_Z.
+    - rewrite join_nonempty2 by discriminate.
+      assert (T : tokenb (string_of_Z n) = true) by apply string_of_Z_token. destruct (token_parts _ T) as (T1 & _).
+      rewrite (proj2 (nonempty_true _) T1). rewrite blank_or_none_app by reflexivity. rewrite split_max_step by reflexivity.
+      rewrite split_max_0 by auto using token_lstrip.
+      cbn [construct_activation String.eqb Ascii.eqb Bool.eqb bind configure_activation].
+      unfold parse_int. now rewrite Z_of_string_of_Z.
+    - rewrite join_nonempty2 by discriminate.
+      pose proof (comparator_token c) as T. destruct (token_parts _ T) as (T1 & _).
+      replace (nonempty (comparator_name c +++ " " +++ fmt d t)) with true
+        by (symmetry; apply nonempty_true; intros E; apply sapp_eq_nil in E; tauto).
+      rewrite blank_or_none_app by reflexivity. rewrite split_max_step by reflexivity.
+      rewrite split_max_0 by (try apply lstrip_app; auto using token_lstrip; intros E; apply sapp_eq_nil in E; tauto).
+      cbn [construct_activation String.eqb Ascii.eqb Bool.eqb bind configure_activation].
+      rewrite two_tokens_join by auto. cbn [bind fst snd]. rewrite find_comparator. now rewrite parse_num_fmt.
+  Qed.
+
+  (* ---- rules *)
+  Lemma join_cons_ne x l : l <> [] -> join " " (x :: l) = x +++ " " +++ join " " l.
+  Proof. destruct l; [congruence|reflexivity]. Qed.
+  Lemma join_inner P A S : A <> [] -> join " " (P ++ join " " A :: S) = join " " (P ++ A ++ S).
+  Proof.
+    intros HA. induction P as [|x P IH]; [cbn [Datatypes.app]; exact (join_join A S HA)|].
+    cbn [Datatypes.app]. rewrite !join_cons_ne; [now rewrite IH| |].
+    - destruct P, A; cbn; congruence.
+    - destruct P; cbn; discriminate.
+  Qed.
+  Definition rule_tokens (r : fll_rule num) : list string :=
+    "if" :: fr_antecedent r ++ "then" :: fr_consequent r
+    ++ (if close1 (fr_weight r) then [] else ["with"; fmt d (fr_weight r)]).
+  Lemma rule_text_tokens r : fr_antecedent r <> [] -> fr_consequent r <> [] ->
+    rule_text fmt close1 d r = join " " (rule_tokens r).
+  Proof.
+    intros HA HC. unfold rule_text, rule_tokens.
+    set (A := fr_antecedent r) in *. set (C := fr_consequent r) in *.
+    set (W := if close1 (fr_weight r) then [] else ["with"; fmt d (fr_weight r)]).
+    transitivity (join " " (["if"] ++ A ++ "then" :: join " " C :: W)).
+    - exact (join_inner ["if"] A ("then" :: join " " C :: W) HA).
+    - transitivity (join " " (("if" :: A ++ ["then"]) ++ join " " C :: W)).
+      + f_equal. cbn [Datatypes.app]. now rewrite <- app_assoc.
+      + rewrite (join_inner _ C W HC). f_equal. cbn [Datatypes.app]. now rewrite <- app_assoc.
+  Qed.
+
+  Lemma wf_rule_parts (r : fll_rule num) : wf_rule r = true ->
+    fr_antecedent r <> [] /\ fr_consequent r <> [] /\
+    Forall (fun t => tokenb t = true /\ String.eqb t "then" = false) (fr_antecedent r) /\
+    Forall (fun t => tokenb t = true /\ String.eqb t "with" = false) (fr_consequent r).
+  Proof.
+    unfold wf_rule. rewrite !andb_true_iff, !forallb_forall. intros [[[A B] C] D]. repeat split.
+    - destruct (fr_antecedent r); [discriminate|congruence].
+    - destruct (fr_consequent r); [discriminate|congruence].
+    - apply Forall_forall. intros t Ht. specialize (C t Ht). rewrite andb_true_iff, negb_true_iff in C. exact C.
+    - apply Forall_forall. intros t Ht. specialize (D t Ht). rewrite andb_true_iff, negb_true_iff in D. exact D.
+  Qed.
+  Lemma rule_tokens_tok (r : fll_rule num) : wf_rule r = true -> Forall tok (rule_tokens r).
+  Proof.
+    intros W. destruct (wf_rule_parts r W) as (_ & _ & A & C). unfold rule_tokens. constructor; [reflexivity|].
+    apply Forall_app. split; [eapply Forall_impl; [|exact A]; cbv beta; tauto|]. constructor; [reflexivity|].
+    apply Forall_app. split; [eapply Forall_impl; [|exact C]; cbv beta; tauto|].
+    destruct (close1 (fr_weight r)); repeat constructor; auto.
+  Qed.
+
+  Local Notation fsm := (rule_fsm parse).
+  Lemma fsm_if A rest ante cq w :
+    Forall (fun t => tokenb t = true /\ String.eqb t "then" = false) A ->
+    fsm (A ++ rest) SIf ante cq w = fsm rest SIf (ante ++ A) cq w.
+  Proof.
+    intros H. revert ante. induction H as [|t A [_ Ht] _ IH]; intros ante; [now rewrite app_nil_r|].
+    cbn [Datatypes.app rule_fsm]. rewrite Ht, IH, <- app_assoc. reflexivity.
+  Qed.
+  Lemma fsm_then C rest ante cq w :
+    Forall (fun t => tokenb t = true /\ String.eqb t "with" = false) C ->
+    fsm (C ++ rest) SThen ante cq w = fsm rest SThen ante (cq ++ C) w.
+  Proof.
+    intros H. revert cq. induction H as [|t C [_ Ht] _ IH]; intros cq; [now rewrite app_nil_r|].
+    cbn [Datatypes.app rule_fsm]. rewrite Ht, IH, <- app_assoc. reflexivity.
+  Qed.
+  Local Notation normr := (normalize_rule round close1 n_one d).
+  Lemma import_rule_roundtrip r : wf_rule r = true ->
+    import_rule parse n_one "rule" (rule_text fmt close1 d r) = Ok (normr r).
+  Proof.
+    intros W. destruct (wf_rule_parts r W) as (HA & HC & FA & FC). pose proof (rule_tokens_tok r W) as HT.
+    unfold import_rule. cbn [String.eqb Ascii.eqb Bool.eqb negb]. unfold parse_rule.
+    rewrite rule_text_tokens by assumption.
+    rewrite cut_comment_id by (apply plain_not_hash, join_tokens_plain, HT). rewrite split_ws_join by assumption.
+    unfold rule_tokens. cbn [rule_fsm String.eqb Ascii.eqb Bool.eqb]. rewrite fsm_if by assumption.
+    cbn [rule_fsm String.eqb Ascii.eqb Bool.eqb Datatypes.app]. rewrite fsm_then by assumption. cbn [Datatypes.app].
+    unfold normalize_rule, norm_h. destruct (close1 (fr_weight r)).
+    - cbn [rule_fsm bind]. destruct (fr_antecedent r); [congruence|]. destruct (fr_consequent r); [congruence|]. reflexivity.
+    - cbn [rule_fsm String.eqb Ascii.eqb Bool.eqb]. rewrite parse_fmt. cbn [rule_fsm bind].
+      destruct (fr_antecedent r); [congruence|]. destruct (fr_consequent r); [congruence|]. reflexivity.
+  Qed.
+  Lemma rule_text_ok r : wf_rule r = true -> value_okb (rule_text fmt close1 d r) = true.
+  Proof.
+    intros W. destruct (wf_rule_parts r W) as (HA & HC & _). rewrite rule_text_tokens by assumption.
+    apply tokens_value, rule_tokens_tok, W.
+  Qed.
+
+  (* ---- blocks as (key, value) pairs *)
+  Definition desc_pairs (desc : string) : list (string * string) :=
+    if String.eqb desc "" then [] else [("description", desc)].
+  Definition term_pair (t : fll_term num) : string * string := ("term", term_value t).
+  Definition head_pairs (enabled : bool) (lo hi : num) (lock : bool) : list (string * string) :=
+    [("enabled", fmt_bool enabled); ("range", join_nonempty [fmt d lo; fmt d hi]); ("lock-range", fmt_bool lock)].
+  Definition input_pairs (v : fll_input num) : list (string * string) :=
+    desc_pairs (fi_description v) ++ head_pairs (fi_enabled v) (fi_min v) (fi_max v) (fi_lock_range v)
+    ++ map term_pair (fi_terms v).
+  Definition output_pairs (v : fll_output num) : list (string * string) :=
+    desc_pairs (fo_description v) ++ head_pairs (fo_enabled v) (fo_min v) (fo_max v) (fo_lock_range v)
+    ++ [("aggregation", snorm_text (fo_aggregation v)); ("defuzzifier", defuzzifier_text (fo_defuzzifier v));
+        ("default", fmt d (fo_default v)); ("lock-previous", fmt_bool (fo_lock_previous v))]
+    ++ map term_pair (fo_terms v).
+  Definition rule_pair (r : fll_rule num) : string * string := ("rule", rule_text fmt close1 d r).
+  Definition block_pairs (b : fll_block num) : list (string * string) :=
+    desc_pairs (fb_description b)
+    ++ [("enabled", fmt_bool (fb_enabled b)); ("conjunction", tnorm_text (fb_conjunction b));
+        ("disjunction", snorm_text (fb_disjunction b)); ("implication", tnorm_text (fb_implication b));
+        ("activation", activation_text fmt d (fb_activation b))]
+    ++ map rule_pair (fb_rules b).
+
+  Lemma description_lines_pairs desc : description_lines desc = map iline (desc_pairs desc).
+  Proof. unfold description_lines, desc_pairs. now destruct (String.eqb desc ""). Qed.
+  Lemma term_lines_pairs ts : Forall (fun t => wf_term close1 t = true) ts ->
+    term_lines fmt close1 d ts = map iline (map term_pair ts).
+  Proof.
+    intros H. unfold term_lines. rewrite map_map. apply map_ext_in. intros t Ht. rewrite Forall_forall in H.
+    unfold iline, kvline, term_pair. cbn [fst snd]. rewrite term_line_kv; [reflexivity|].
+    pose proof (wf_term_class t (H t Ht)) as C. now destruct (token_parts _ C).
+  Qed.
+  Lemma wf_input_parts (v : fll_input num) : wf_input close1 v = true ->
+    ident_ok (fi_name v) = true /\ value_okb (fi_description v) = true /\ Forall (fun t => wf_term close1 t = true) (fi_terms v).
+  Proof. unfold wf_input. rewrite !andb_true_iff, forallb_forall, Forall_forall. tauto. Qed.
+  Lemma wf_output_parts (v : fll_output num) : wf_output close1 v = true ->
+    ident_ok (fo_name v) = true /\ value_okb (fo_description v) = true /\ Forall (fun t => wf_term close1 t = true) (fo_terms v).
+  Proof. unfold wf_output. rewrite !andb_true_iff, forallb_forall, Forall_forall. tauto. Qed.
+  Lemma wf_block_parts (b : fll_block num) : wf_block b = true ->
+    value_okb (fb_name b) = true /\ value_okb (fb_description b) = true /\ Forall (fun r => wf_rule r = true) (fb_rules b).
+  Proof. unfold wf_block. rewrite !andb_true_iff, forallb_forall, Forall_forall. tauto. Qed.
+
+  Lemma export_input_pairs v : wf_input close1 v = true ->
+    export_input fmt close1 d v = kv "InputVariable" (fi_name v) :: map iline (input_pairs v).
+  Proof.
+    intros W. destruct (wf_input_parts v W) as (_ & _ & T). unfold export_input, variable_head, input_pairs, head_pairs.
+    rewrite description_lines_pairs, term_lines_pairs by assumption. rewrite !map_app. cbn [Datatypes.app map]. 
+    rewrite <- ?app_assoc. reflexivity.
+  Qed.
+  Lemma export_output_pairs v : wf_output close1 v = true ->
+    export_output fmt close1 d v = kv "OutputVariable" (fo_name v) :: map iline (output_pairs v).
+  Proof.
+    intros W. destruct (wf_output_parts v W) as (_ & _ & T). unfold export_output, variable_head, output_pairs, head_pairs.
+    rewrite description_lines_pairs, term_lines_pairs by assumption. rewrite !map_app. cbn [Datatypes.app map].
+    rewrite <- ?app_assoc. reflexivity.
+  Qed.
+  Lemma export_block_pairs b :
+    export_block fmt close1 d b = kv "RuleBlock" (fb_name b) :: map iline (block_pairs b).
+  Proof.
+    unfold export_block, block_pairs. rewrite description_lines_pairs. rewrite !map_app. cbn [Datatypes.app map].
+    rewrite <- ?app_assoc. rewrite map_map. reflexivity.
+  Qed.
+
+  (* ---- every pair is a clean `key: value` *)
+  Lemma desc_pairs_ok desc : value_okb desc = true -> Forall pair_ok (desc_pairs desc).
+  Proof. intros H. unfold desc_pairs. destruct (String.eqb desc ""); repeat constructor; auto. Qed.
+  Lemma fmt_bool_ok b : value_okb (fmt_bool b) = true.
+  Proof. now destruct b. Qed.
+  Lemma range_value_ok lo hi : value_okb (join_nonempty [fmt d lo; fmt d hi]) = true.
+  Proof.
+    assert (N : forall x, nonempty (fmt d x) = true) by (intros x; apply nonempty_true; now destruct (token_parts _ (fmt_token d x))).
+    unfold join_nonempty. cbn [filter]. rewrite !N. apply tokens_value. repeat constructor; auto.
+  Qed.
+  Lemma head_pairs_ok en lo hi lk : Forall pair_ok (head_pairs en lo hi lk).
+  Proof. unfold head_pairs. repeat constructor; cbn [fst snd]; auto using fmt_bool_ok, range_value_ok. Qed.
+  Lemma term_pairs_ok ts : Forall (fun t => wf_term close1 t = true) ts -> Forall pair_ok (map term_pair ts).
+  Proof. intros H. apply Forall_map. eapply Forall_impl; [|exact H]. intros t W. split; [reflexivity|]. now apply term_value_ok. Qed.
+  Lemma rule_pairs_ok rs : Forall (fun r => wf_rule r = true) rs -> Forall pair_ok (map rule_pair rs).
+  Proof. intros H. apply Forall_map. eapply Forall_impl; [|exact H]. intros r W. split; [reflexivity|]. now apply rule_text_ok. Qed.
+  Lemma tnorm_text_ok n : value_okb (tnorm_text n) = true.
+  Proof. destruct n as [n|]; [destruct n|]; reflexivity. Qed.
+  Lemma snorm_text_ok n : value_okb (snorm_text n) = true.
+  Proof. destruct n as [n|]; [destruct n|]; reflexivity. Qed.
+  Lemma defuzzifier_text_ok f : value_okb (defuzzifier_text f) = true.
+  Proof.
+    destruct f as [[k r|a t]|]; [| destruct a, t; reflexivity | reflexivity].
+    unfold defuzzifier_text. cbn [defuzzifier_class defuzzifier_params]. rewrite join_nonempty2 by (now destruct k).
+    destruct (Z.eqb r default_resolution); [now destruct k|].
+    rewrite (proj2 (nonempty_true _) (string_of_Z_nonempty r)).
+    apply value_prefix; auto using integral_name_token, string_of_Z_nonempty, token_plain, token_rstrip, string_of_Z_token.
+  Qed.
+  Lemma activation_text_ok a : value_okb (activation_text fmt d a) = true.
+  Proof.
+    destruct a as [a|]; [|reflexivity]. unfold activation_text.
+    assert (P : forall c p, tokenb c = true -> Forall tok p -> value_okb (join_nonempty [c; join " " p]) = true).
+    { intros c p Hc Hp. destruct (token_parts _ Hc) as (C1 & _). rewrite join_nonempty2 by assumption.
+      rewrite nonempty_join by assumption. destruct p as [|x p]; [now apply token_value|].
+      destruct (tokens_params_ok _ Hp) as (A & B & C & _); [discriminate|]. now apply value_prefix. }
+    destruct a as [|n t|n t|n|n| |c t]; cbn [activation_class activation_params].
+    - apply (P "General" []); [reflexivity|constructor].
+    - apply (P "First" [string_of_Z n; fmt d t]); [reflexivity|repeat constructor; auto using string_of_Z_token].
+    - apply (P "Last" [string_of_Z n; fmt d t]); [reflexivity|repeat constructor; auto using string_of_Z_token].
+    - apply (P "Highest" [string_of_Z n]); [reflexivity|repeat constructor; auto using string_of_Z_token].
+    - apply (P "Lowest" [string_of_Z n]); [reflexivity|repeat constructor; auto using string_of_Z_token].
+    - apply (P "Proportional" []); [reflexivity|constructor].
+    - apply (P "Threshold" [comparator_name c; fmt d t]); [reflexivity|repeat constructor; auto using comparator_token].
+  Qed.
+  Lemma input_pairs_ok v : wf_input close1 v = true -> Forall pair_ok (input_pairs v).
+  Proof.
+    intros W. destruct (wf_input_parts v W) as (_ & D & T). unfold input_pairs.
+    repeat (apply Forall_app; split); auto using desc_pairs_ok, head_pairs_ok, term_pairs_ok.
+  Qed.
+  Lemma output_pairs_ok v : wf_output close1 v = true -> Forall pair_ok (output_pairs v).
+  Proof.
+    intros W. destruct (wf_output_parts v W) as (_ & D & T). unfold output_pairs.
+    repeat (apply Forall_app; split); auto using desc_pairs_ok, head_pairs_ok, term_pairs_ok.
+    repeat constructor; cbn [fst snd]; auto using snorm_text_ok, defuzzifier_text_ok, fmt_bool_ok, token_value.
+  Qed.
+  Lemma block_pairs_ok b : wf_block b = true -> Forall pair_ok (block_pairs b).
+  Proof.
+    intros W. destruct (wf_block_parts b W) as (_ & D & R). unfold block_pairs.
+    repeat (apply Forall_app; split); auto using desc_pairs_ok, rule_pairs_ok.
+    repeat constructor; cbn [fst snd]; auto using snorm_text_ok, tnorm_text_ok, activation_text_ok, fmt_bool_ok.
+  Qed.
+
+  (* ---- the importer's dispatch on the pairs of a block *)
+  Local Notation in_line := (input_line parse n_nan n_one).
+  Local Notation out_line := (output_line parse n_nan n_one).
+  Local Notation rb_line := (block_line parse n_one n_zero).
+  Local Notation normi := (normalize_input round close1 n_one d).
+  Local Notation normo := (normalize_output round close1 n_one d).
+  Local Notation normb := (normalize_block round close1 n_one d).
+
+  Lemma fold_terms_input ts nm de en lo hi lk ts0 : Forall (fun t => wf_term close1 t = true) ts ->
+    fold_pairs in_line (map term_pair ts) (Build_fll_input nm de en lo hi lk ts0)
+    = Ok (Build_fll_input nm de en lo hi lk (ts0 ++ map normt ts)).
+  Proof.
+    intros H. revert ts0. induction H as [|t ts W _ IH]; intros ts0; [cbn; now rewrite app_nil_r|].
+    cbn [map fold_pairs term_pair]. unfold input_line at 1. cbn [String.eqb Ascii.eqb Bool.eqb].
+    rewrite import_term_roundtrip by assumption. cbn [bind]. rewrite IH, <- app_assoc. reflexivity.
+  Qed.
+  Lemma fold_desc_input x nm en lo hi lk ts :
+    fold_pairs in_line (desc_pairs x) (Build_fll_input nm "" en lo hi lk ts) = Ok (Build_fll_input nm x en lo hi lk ts).
+  Proof. unfold desc_pairs. destruct (String.eqb_spec x "") as [->|_]; reflexivity. Qed.
+  Lemma fold_input v : wf_input close1 v = true ->
+    fold_pairs in_line (("InputVariable", fi_name v) :: input_pairs v) (input_default n_pinf n_ninf) = Ok (normi v).
+  Proof.
+    intros W. destruct (wf_input_parts v W) as (_ & _ & T). destruct v as [nm de en lo hi lk ts]. cbn [fi_name fi_description fi_enabled fi_min fi_max fi_lock_range fi_terms] in *.
+    unfold input_pairs. cbn [fold_pairs]. unfold input_default, input_line at 1. cbn [String.eqb Ascii.eqb Bool.eqb bind].
+    cbn [fi_name fi_description fi_enabled fi_min fi_max fi_lock_range fi_terms].
+    rewrite fold_pairs_app, fold_desc_input. cbn [bind]. rewrite fold_pairs_app. unfold head_pairs. cbn [fold_pairs]. unfold input_line at 1 2 3.
+    cbn [String.eqb Ascii.eqb Bool.eqb]. rewrite !import_bool_fmt, import_range_fmt. cbn [bind fst snd].
+    rewrite fold_terms_input by assumption. reflexivity.
+  Qed.
+
+  Lemma fold_terms_output ts nm de en lo hi lk ag df dv lp ts0 : Forall (fun t => wf_term close1 t = true) ts ->
+    fold_pairs out_line (map term_pair ts) (Build_fll_output nm de en lo hi lk ag df dv lp ts0)
+    = Ok (Build_fll_output nm de en lo hi lk ag df dv lp (ts0 ++ map normt ts)).
+  Proof.
+    intros H. revert ts0. induction H as [|t ts W _ IH]; intros ts0; [cbn; now rewrite app_nil_r|].
+    cbn [map fold_pairs term_pair]. unfold output_line at 1. cbn [String.eqb Ascii.eqb Bool.eqb].
+    rewrite import_term_roundtrip by assumption. cbn [bind]. rewrite IH, <- app_assoc. reflexivity.
+  Qed.
+  Lemma fold_desc_output x nm en lo hi lk ag df dv lp ts :
+    fold_pairs out_line (desc_pairs x) (Build_fll_output nm "" en lo hi lk ag df dv lp ts)
+    = Ok (Build_fll_output nm x en lo hi lk ag df dv lp ts).
+  Proof. unfold desc_pairs. destruct (String.eqb_spec x "") as [->|_]; reflexivity. Qed.
+  Lemma fold_output v : wf_output close1 v = true ->
+    fold_pairs out_line (("OutputVariable", fo_name v) :: output_pairs v) (output_default n_nan n_pinf n_ninf) = Ok (normo v).
+  Proof.
+    intros W. destruct (wf_output_parts v W) as (_ & _ & T). destruct v as [nm de en lo hi lk ag df dv lp ts].
+    cbn [fo_name fo_description fo_enabled fo_min fo_max fo_lock_range fo_aggregation fo_defuzzifier fo_default fo_lock_previous fo_terms] in *.
+    unfold output_pairs. cbn [fold_pairs]. unfold output_default, output_line at 1. cbn [String.eqb Ascii.eqb Bool.eqb bind].
+    cbn [fo_name fo_description fo_enabled fo_min fo_max fo_lock_range fo_aggregation fo_defuzzifier fo_default fo_lock_previous fo_terms].
+    rewrite fold_pairs_app, fold_desc_output. cbn [bind]. rewrite fold_pairs_app. unfold head_pairs. cbn [fold_pairs]. unfold output_line at 1 2 3.
+    cbn [String.eqb Ascii.eqb Bool.eqb]. rewrite !import_bool_fmt, import_range_fmt. cbn [bind fst snd].
+    rewrite fold_pairs_app. cbn [fold_pairs]. unfold output_line at 1 2 3 4. cbn [String.eqb Ascii.eqb Bool.eqb].
+    rewrite import_snorm_text, import_defuzzifier_text, parse_num_fmt, import_bool_fmt. cbn [bind].
+    rewrite fold_terms_output by assumption. reflexivity.
+  Qed.
+
+  Lemma fold_rules rs nm de en cj dj im ac rs0 : Forall (fun r => wf_rule r = true) rs ->
+    fold_pairs rb_line (map rule_pair rs) (Build_fll_block nm de en cj dj im ac rs0)
+    = Ok (Build_fll_block nm de en cj dj im ac (rs0 ++ map normr rs)).
+  Proof.
+    intros H. revert rs0. induction H as [|r rs W _ IH]; intros rs0; [cbn; now rewrite app_nil_r|].
+    cbn [map fold_pairs rule_pair]. unfold block_line at 1. cbn [String.eqb Ascii.eqb Bool.eqb].
+    rewrite import_rule_roundtrip by assumption. cbn [bind]. rewrite IH, <- app_assoc. reflexivity.
+  Qed.
+  Lemma fold_desc_block x nm en cj dj im ac rs :
+    fold_pairs rb_line (desc_pairs x) (Build_fll_block nm "" en cj dj im ac rs) = Ok (Build_fll_block nm x en cj dj im ac rs).
+  Proof. unfold desc_pairs. destruct (String.eqb_spec x "") as [->|_]; reflexivity. Qed.
+  Lemma fold_block_rb b : wf_block b = true ->
+    fold_pairs rb_line (("RuleBlock", fb_name b) :: block_pairs b) (block_default num) = Ok (normb b).
+  Proof.
+    intros W. destruct (wf_block_parts b W) as (_ & _ & R). destruct b as [nm de en cj dj im ac rs].
+    cbn [fb_name fb_description fb_enabled fb_conjunction fb_disjunction fb_implication fb_activation fb_rules] in *.
+    unfold block_pairs. cbn [fold_pairs]. unfold block_default, block_line at 1. cbn [String.eqb Ascii.eqb Bool.eqb bind].
+    cbn [fb_name fb_description fb_enabled fb_conjunction fb_disjunction fb_implication fb_activation fb_rules].
+    rewrite fold_pairs_app, fold_desc_block. cbn [bind]. rewrite fold_pairs_app. cbn [fold_pairs]. unfold block_line at 1 2 3 4 5.
+    cbn [String.eqb Ascii.eqb Bool.eqb]. rewrite import_bool_fmt, !import_tnorm_text, import_snorm_text, import_activation_text.
+    cbn [bind]. rewrite fold_rules by assumption. reflexivity.
+  Qed.
+
+  (* ---- FllImporter.engine: grouping lines into blocks *)
+  Local Notation LOOP := (engine_loop parse n_nan n_pinf n_ninf n_one n_zero).
+  Local Notation PROC := (process parse n_nan n_pinf n_ninf n_one n_zero).
+  Definition prev (comp : string) (blk : list string) (e : fll_engine num) : result (fll_engine num) :=
+    if String.eqb comp "" then Ok e else PROC comp blk e.
+
+  Lemma loop_header k v rest comp blk e : key_okb k = true -> value_okb v = true -> is_header k = true ->
+    LOOP (kv k v :: rest) comp blk e = do e' <- prev comp blk e; LOOP rest k [kv k v] e'.
+  Proof.
+    intros Hk Hv Hh. cbn [engine_loop]. rewrite (clean_kv0 k v Hk Hv). destruct (key_parts k Hk) as (K1 & _).
+    destruct (String.eqb_spec (kv k v) "") as [E|_]; [now apply kv_nonempty in E|].
+    rewrite key_value_kv by assumption. cbn [bind]. rewrite Hh. reflexivity.
+  Qed.
+  Lemma loop_body ps rest comp blk e :
+    Forall pair_ok ps -> Forall (fun p => is_header (fst p) = false) ps ->
+    LOOP (map iline ps ++ rest) comp blk e = LOOP rest comp (blk ++ map kvline ps) e.
+  Proof.
+    intros H1 H2. revert blk. induction H1 as [|[k v] ps [Hk Hv] _ IH]; intros blk; [cbn; now rewrite app_nil_r|].
+    inversion_clear H2 as [|? ? Hh Hr]. cbn [fst snd] in *. cbn [map Datatypes.app].
+    change (iline (k, v)) with (indent +++ kv k v). cbn [engine_loop]. rewrite (clean_kv1 k v Hk Hv). destruct (key_parts k Hk) as (K1 & _).
+    destruct (String.eqb_spec (kv k v) "") as [E|_]; [now apply kv_nonempty in E|].
+    rewrite key_value_kv by assumption. cbn [bind]. rewrite Hh. rewrite IH by assumption.
+    change (kvline (k, v)) with (kv k v). now rewrite <- app_assoc.
+  Qed.
+  Lemma loop_end comp blk e : LOOP [""] comp blk e = prev comp blk e.
+  Proof. reflexivity. Qed.
+
+  (* a block: header key, name, body pairs *)
+  Definition blk : Type := (string * string * list (string * string))%type.
+  Definition render_blk (b : blk) : list string := let '(h, n, ps) := b in kv h n :: map iline ps.
+  Definition blk_lines (b : blk) : list string := let '(h, n, ps) := b in map kvline ((h, n) :: ps).
+  Definition blk_ok (b : blk) : Prop :=
+    let '(h, n, ps) := b in
+    key_okb h = true /\ is_header h = true /\ value_okb n = true /\ Forall pair_ok ps
+    /\ Forall (fun p => is_header (fst p) = false) ps.
+  Fixpoint run_blks (bs : list blk) (e : fll_engine num) : result (fll_engine num) :=
+    match bs with
+    | [] => Ok e
+    | b :: r => do e' <- PROC (fst (fst b)) (blk_lines b) e; run_blks r e'
+    end.
+  Lemma run_blks_app a b e : run_blks (a ++ b) e = do e' <- run_blks a e; run_blks b e'.
+  Proof.
+    revert e. induction a as [|x a IH]; intros e; [reflexivity|]. cbn [Datatypes.app run_blks].
+    destruct (PROC (fst (fst x)) (blk_lines x) e); cbn [bind]; [apply IH|reflexivity].
+  Qed.
+  Lemma header_nonempty h : is_header h = true -> String.eqb h "" = false.
+  Proof. destruct h; [discriminate|reflexivity]. Qed.
+  Lemma loop_blks bs comp lines e : Forall blk_ok bs ->
+    LOOP (flat_map render_blk bs ++ [""]) comp lines e = do e1 <- prev comp lines e; run_blks bs e1.
+  Proof.
+    intros H. revert comp lines e. induction H as [|[[h n] ps] bs (Hk & Hh & Hn & Hp & Hnh) _ IH]; intros comp lines e.
+    - cbn [flat_map Datatypes.app run_blks]. rewrite loop_end. now destruct (prev comp lines e).
+    - cbn [flat_map render_blk]. rewrite <- app_assoc. cbn [Datatypes.app]. rewrite loop_header by assumption.
+      destruct (prev comp lines e) as [e'|x]; cbn [bind]; [|reflexivity].
+      rewrite loop_body by assumption. rewrite IH. unfold prev at 1. rewrite (header_nonempty h Hh).
+      cbn [run_blks fst blk_lines map kvline Datatypes.app]. reflexivity.
+  Qed.
+
+  (* ---- the blocks of an engine *)
+  Definition engine_blk (e : fll_engine num) : blk := ("Engine", fe_name e, desc_pairs (fe_description e)).
+  Definition input_blk (v : fll_input num) : blk := ("InputVariable", fi_name v, input_pairs v).
+  Definition output_blk (v : fll_output num) : blk := ("OutputVariable", fo_name v, output_pairs v).
+  Definition rb_blk (b : fll_block num) : blk := ("RuleBlock", fb_name b, block_pairs b).
+  Definition all_blks (e : fll_engine num) : list blk :=
+    engine_blk e :: map input_blk (fe_inputs e) ++ map output_blk (fe_outputs e) ++ map rb_blk (fe_blocks e).
+
+  Lemma wf_parts (e : fll_engine num) : wf close1 e = true ->
+    value_okb (fe_name e) = true /\ value_okb (fe_description e) = true
+    /\ Forall (fun v => wf_input close1 v = true) (fe_inputs e)
+    /\ Forall (fun v => wf_output close1 v = true) (fe_outputs e)
+    /\ Forall (fun b => wf_block b = true) (fe_blocks e).
+  Proof. unfold wf. rewrite !andb_true_iff, !forallb_forall, !Forall_forall. tauto. Qed.
+
+  Lemma flat_map_blks {A} (f : A -> list string) (g : A -> blk) (l : list A) (P : A -> Prop) :
+    (forall a, P a -> f a = render_blk (g a)) -> Forall P l -> flat_map f l = flat_map render_blk (map g l).
+  Proof. intros H HF. induction HF as [|a l Pa _ IH]; [reflexivity|]. cbn [flat_map map]. now rewrite H, IH. Qed.
+  Lemma export_blks e : wf close1 e = true -> export fmt close1 d e = flat_map render_blk (all_blks e) ++ [""].
+  Proof.
+    intros W. destruct (wf_parts e W) as (_ & _ & WI & WO & WB). unfold export, all_blks.
+    cbn [flat_map render_blk engine_blk]. rewrite !flat_map_app. rewrite description_lines_pairs.
+    rewrite (flat_map_blks (export_input fmt close1 d) input_blk (fe_inputs e) _ (fun v W => export_input_pairs v W) WI).
+    rewrite (flat_map_blks (export_output fmt close1 d) output_blk (fe_outputs e) _ (fun v W => export_output_pairs v W) WO).
+    rewrite (flat_map_blks (export_block fmt close1 d) rb_blk (fe_blocks e) (fun _ => True) (fun b _ => export_block_pairs b))
+      by (apply Forall_forall; auto).
+    cbn [Datatypes.app]. rewrite <- !app_assoc. reflexivity.
+  Qed.
+
+  Lemma nonheader_desc x : Forall (fun p : string * string => is_header (fst p) = false) (desc_pairs x).
+  Proof. unfold desc_pairs. destruct (String.eqb x ""); repeat constructor. Qed.
+  Lemma nonheader_head en lo hi lk : Forall (fun p : string * string => is_header (fst p) = false) (head_pairs en lo hi lk).
+  Proof. repeat constructor. Qed.
+  Lemma nonheader_terms ts : Forall (fun p : string * string => is_header (fst p) = false) (map term_pair ts).
+  Proof. apply Forall_map. apply Forall_forall. reflexivity. Qed.
+  Lemma nonheader_rules rs : Forall (fun p : string * string => is_header (fst p) = false) (map rule_pair rs).
+  Proof. apply Forall_map. apply Forall_forall. reflexivity. Qed.
+
+  Lemma engine_blk_ok e : wf close1 e = true -> blk_ok (engine_blk e).
+  Proof.
+    intros W. destruct (wf_parts e W) as (N & D & _). unfold blk_ok, engine_blk.
+    repeat split; auto using desc_pairs_ok, nonheader_desc.
+  Qed.
+  Lemma input_blk_ok v : wf_input close1 v = true -> blk_ok (input_blk v).
+  Proof.
+    intros W. destruct (wf_input_parts v W) as (N & D & T). unfold blk_ok, input_blk.
+    repeat split; auto using input_pairs_ok, token_value, ident_token.
+    unfold input_pairs. repeat (apply Forall_app; split); auto using nonheader_desc, nonheader_head, nonheader_terms.
+  Qed.
+  Lemma output_blk_ok v : wf_output close1 v = true -> blk_ok (output_blk v).
+  Proof.
+    intros W. destruct (wf_output_parts v W) as (N & D & T). unfold blk_ok, output_blk.
+    repeat split; auto using output_pairs_ok, token_value, ident_token.
+    unfold output_pairs. repeat (apply Forall_app; split); auto using nonheader_desc, nonheader_head, nonheader_terms.
+    all: repeat constructor.
+  Qed.
+  Lemma rb_blk_ok b : wf_block b = true -> blk_ok (rb_blk b).
+  Proof.
+    intros W. destruct (wf_block_parts b W) as (N & D & R). unfold blk_ok, rb_blk.
+    repeat split; auto using block_pairs_ok.
+    unfold block_pairs. repeat (apply Forall_app; split); auto using nonheader_desc, nonheader_rules.
+    all: repeat constructor.
+  Qed.
+  Lemma all_blks_ok e : wf close1 e = true -> Forall blk_ok (all_blks e).
+  Proof.
+    intros W. destruct (wf_parts e W) as (_ & _ & WI & WO & WB). unfold all_blks. constructor; [now apply engine_blk_ok|].
+    repeat (apply Forall_app; split); apply Forall_map.
+    - eapply Forall_impl; [|exact WI]. apply input_blk_ok.
+    - eapply Forall_impl; [|exact WO]. apply output_blk_ok.
+    - eapply Forall_impl; [|exact WB]. apply rb_blk_ok.
+  Qed.
+
+  (* ---- processing each kind of block *)
+  Lemma run_engine_blk e :
+    wf close1 e = true ->
+    PROC "Engine" (blk_lines (engine_blk e)) (engine_default num)
+    = Ok (Build_fll_engine (fe_name e) (fe_description e) [] [] []).
+  Proof.
+    intros W. destruct (wf_parts e W) as (N & D & _). unfold process, engine_default. cbn [String.eqb Ascii.eqb Bool.eqb].
+    unfold blk_lines, engine_blk. rewrite fold_block_pairs by (constructor; [split; [reflexivity|exact N]|now apply desc_pairs_ok]).
+    cbn [fold_pairs engine_line String.eqb Ascii.eqb Bool.eqb bind]. unfold desc_pairs.
+    destruct (String.eqb_spec (fe_description e) "") as [->|_]; reflexivity.
+  Qed.
+  Lemma run_input_blk v nm de ins outs bs : wf_input close1 v = true ->
+    PROC "InputVariable" (blk_lines (input_blk v)) (Build_fll_engine nm de ins outs bs)
+    = Ok (Build_fll_engine nm de (ins ++ [normi v]) outs bs).
+  Proof.
+    intros W. destruct (wf_input_parts v W) as (N & D & T). unfold process. cbn [String.eqb Ascii.eqb Bool.eqb].
+    unfold import_input, blk_lines, input_blk.
+    rewrite fold_block_pairs by (constructor; [split; [reflexivity|now apply token_value, ident_token]|now apply input_pairs_ok]).
+    rewrite fold_input by assumption. cbn [bind]. destruct v as [n' de' en lo hi lk ts]. cbn [normalize_input fi_name] in *.
+    now rewrite (ident_ok_id _ N).
+  Qed.
+  Lemma run_output_blk v nm de ins outs bs : wf_output close1 v = true ->
+    PROC "OutputVariable" (blk_lines (output_blk v)) (Build_fll_engine nm de ins outs bs)
+    = Ok (Build_fll_engine nm de ins (outs ++ [normo v]) bs).
+  Proof.
+    intros W. destruct (wf_output_parts v W) as (N & D & T). unfold process. cbn [String.eqb Ascii.eqb Bool.eqb].
+    unfold import_output, blk_lines, output_blk.
+    rewrite fold_block_pairs by (constructor; [split; [reflexivity|now apply token_value, ident_token]|now apply output_pairs_ok]).
+    rewrite fold_output by assumption. cbn [bind]. destruct v as [n' de' en lo hi lk ag df dv lp ts]. cbn [normalize_output fo_name] in *.
+    now rewrite (ident_ok_id _ N).
+  Qed.
+  Lemma run_rb_blk b nm de ins outs bs : wf_block b = true ->
+    PROC "RuleBlock" (blk_lines (rb_blk b)) (Build_fll_engine nm de ins outs bs)
+    = Ok (Build_fll_engine nm de ins outs (bs ++ [normb b])).
+  Proof.
+    intros W. destruct (wf_block_parts b W) as (N & D & R). unfold process. cbn [String.eqb Ascii.eqb Bool.eqb].
+    unfold import_block, blk_lines, rb_blk.
+    rewrite fold_block_pairs by (constructor; [split; [reflexivity|exact N]|now apply block_pairs_ok]).
+    rewrite fold_block_rb by assumption. reflexivity.
+  Qed.
+
+  Lemma run_inputs vs nm de ins outs bs : Forall (fun v => wf_input close1 v = true) vs ->
+    run_blks (map input_blk vs) (Build_fll_engine nm de ins outs bs) = Ok (Build_fll_engine nm de (ins ++ map normi vs) outs bs).
+  Proof.
+    intros H. revert ins. induction H as [|v vs W _ IH]; intros ins; [cbn; now rewrite app_nil_r|].
+    cbn [map run_blks]. change (fst (fst (input_blk v))) with "InputVariable". rewrite run_input_blk by assumption.
+    cbn [bind]. rewrite IH, <- app_assoc. reflexivity.
+  Qed.
+  Lemma run_outputs vs nm de ins outs bs : Forall (fun v => wf_output close1 v = true) vs ->
+    run_blks (map output_blk vs) (Build_fll_engine nm de ins outs bs) = Ok (Build_fll_engine nm de ins (outs ++ map normo vs) bs).
+  Proof.
+    intros H. revert outs. induction H as [|v vs W _ IH]; intros outs; [cbn; now rewrite app_nil_r|].
+    cbn [map run_blks]. change (fst (fst (output_blk v))) with "OutputVariable". rewrite run_output_blk by assumption.
+    cbn [bind]. rewrite IH, <- app_assoc. reflexivity.
+  Qed.
+  Lemma run_rbs xs nm de ins outs bs : Forall (fun b => wf_block b = true) xs ->
+    run_blks (map rb_blk xs) (Build_fll_engine nm de ins outs bs) = Ok (Build_fll_engine nm de ins outs (bs ++ map normb xs)).
+  Proof.
+    intros H. revert bs. induction H as [|b xs W _ IH]; intros bs; [cbn; now rewrite app_nil_r|].
+    cbn [map run_blks]. change (fst (fst (rb_blk b))) with "RuleBlock". rewrite run_rb_blk by assumption.
+    cbn [bind]. rewrite IH, <- app_assoc. reflexivity.
+  Qed.
+
+  (* ================================================================================================ main theorems *)
+  Local Notation IMPORT := (import_ parse n_nan n_pinf n_ninf n_one n_zero).
+  Local Notation EXPORT := (export fmt close1 d).
+  Local Notation NORMALIZE := (normalize round close1 n_one d).
+
+  Theorem import_export e : wf close1 e = true -> IMPORT (EXPORT e) = Ok (NORMALIZE e).
+  Proof.
+    intros W. destruct (wf_parts e W) as (_ & _ & WI & WO & WB).
+    rewrite export_blks by assumption. unfold import_. rewrite loop_blks by now apply all_blks_ok.
+    unfold prev. cbn [String.eqb bind]. unfold all_blks. cbn [run_blks]. change (fst (fst (engine_blk e))) with "Engine".
+    rewrite run_engine_blk by assumption. cbn [bind]. rewrite run_blks_app.
+    rewrite run_inputs by assumption. cbn [bind]. rewrite run_blks_app. rewrite run_outputs by assumption. cbn [bind].
+    rewrite run_rbs by assumption. destruct e. reflexivity.
+  Qed.
+
+  (* ================================================================================================ export of the normal form *)
+  Local Notation stable_h' := (stable_h round close1 d).
+  Lemma map_fmt_round xs : map (fmt d) (map (round d) xs) = map (fmt d) xs.
+  Proof. rewrite map_map. apply map_ext. intros x. apply fmt_round. Qed.
+  Lemma hpart_one : hpart n_one = [].
+  Proof. unfold height_part. now rewrite close1_one. Qed.
+  Lemma hpart_normh h : stable_h' h -> hpart (normh h) = hpart h.
+  Proof.
+    unfold stable_h, norm_h, height_part. intros S. destruct (close1 h) eqn:C.
+    - now rewrite close1_one.
+    - rewrite (S eq_refl), fmt_round. reflexivity.
+  Qed.
+  Lemma flatten_round (xy : list (num * num)) :
+    map (fmt d) (flatten_xy (map (fun p => (round d (fst p), round d (snd p))) xy)) = map (fmt d) (flatten_xy xy).
+  Proof. induction xy as [|[x y] r IH]; [reflexivity|]. cbn [map flatten_xy fst snd]. now rewrite !fmt_round, IH. Qed.
+
+  Lemma term_params_normalize t : wf_term close1 t = true -> stable_term round close1 d t -> tparams (normt t) = tparams t.
+  Proof.
+    intros W S. destruct t as [n c ps h|n xy h|n cs h|n f h]; cbn [normalize_term term_params stable_term] in *.
+    - rewrite map_fmt_round. unfold wf_term in W. rewrite !andb_true_iff in W. destruct W as [_ [_ W]].
+      destruct (lookup_term c) as [r|]; [|discriminate]. rewrite andb_true_iff, orb_true_iff in W. destruct W as [_ W].
+      destruct (row_height r); [now rewrite hpart_normh|]. destruct W as [W|W]; [discriminate|].
+      rewrite hpart_one. unfold height_part. now rewrite W.
+    - rewrite flatten_round. now rewrite hpart_normh.
+    - rewrite hpart_one, app_nil_r, map_app, map_fmt_round. unfold height_part. destruct (close1 h); [reflexivity|].
+      cbn [map]. now rewrite fmt_round.
+    - reflexivity.
+  Qed.
+  Lemma term_line_normalize t : wf_term close1 t = true -> stable_term round close1 d t ->
+    term_line fmt close1 d (normt t) = term_line fmt close1 d t.
+  Proof.
+    intros W S. unfold term_line. rewrite term_params_normalize by assumption. now destruct t.
+  Qed.
+  Lemma term_lines_normalize ts : Forall (fun t => wf_term close1 t = true) ts -> Forall (stable_term round close1 d) ts ->
+    term_lines fmt close1 d (map normt ts) = term_lines fmt close1 d ts.
+  Proof.
+    intros W S. unfold term_lines. rewrite map_map. induction W as [|t ts Wt _ IH]; [reflexivity|].
+    inversion_clear S as [|? ? St Sr]. cbn [map]. rewrite term_line_normalize by assumption. now rewrite IH.
+  Qed.
+  Lemma activation_text_normalize a : activation_text fmt d (option_map (normalize_activation round d) a) = activation_text fmt d a.
+  Proof.
+    destruct a as [a|]; [|reflexivity]. destruct a; cbn [option_map normalize_activation activation_text activation_class activation_params];
+      rewrite ?fmt_round; reflexivity.
+  Qed.
+  Lemma rule_line_normalize r : stable_h' (fr_weight r) -> rule_line fmt close1 d (normr r) = rule_line fmt close1 d r.
+  Proof.
+    intros S. unfold rule_line, rule_text, normalize_rule. cbn [fr_antecedent fr_consequent fr_weight].
+    pose proof (hpart_normh (fr_weight r) S) as H. unfold height_part in H. unfold norm_h in *.
+    destruct (close1 (fr_weight r)) eqn:C.
+    - now rewrite close1_one.
+    - unfold stable_h in S. rewrite (S C), fmt_round. reflexivity.
+  Qed.
+
+  Lemma export_input_normalize v : wf_input close1 v = true -> Forall (stable_term round close1 d) (fi_terms v) ->
+    export_input fmt close1 d (normi v) = export_input fmt close1 d v.
+  Proof.
+    intros W S. destruct (wf_input_parts v W) as (_ & _ & T). destruct v as [nm de en lo hi lk ts].
+    unfold export_input, normalize_input, variable_head. cbn [fi_name fi_description fi_enabled fi_min fi_max fi_lock_range fi_terms] in *.
+    now rewrite !fmt_round, term_lines_normalize.
+  Qed.
+  Lemma export_output_normalize v : wf_output close1 v = true -> Forall (stable_term round close1 d) (fo_terms v) ->
+    export_output fmt close1 d (normo v) = export_output fmt close1 d v.
+  Proof.
+    intros W S. destruct (wf_output_parts v W) as (_ & _ & T). destruct v as [nm de en lo hi lk ag df dv lp ts].
+    unfold export_output, normalize_output, variable_head.
+    cbn [fo_name fo_description fo_enabled fo_min fo_max fo_lock_range fo_aggregation fo_defuzzifier fo_default fo_lock_previous fo_terms] in *.
+    now rewrite !fmt_round, term_lines_normalize.
+  Qed.
+  Lemma export_block_normalize b : Forall (fun r => stable_h' (fr_weight r)) (fb_rules b) ->
+    export_block fmt close1 d (normb b) = export_block fmt close1 d b.
+  Proof.
+    intros S. destruct b as [nm de en cj dj im ac rs]. unfold export_block, normalize_block.
+    cbn [fb_name fb_description fb_enabled fb_conjunction fb_disjunction fb_implication fb_activation fb_rules] in *.
+    rewrite activation_text_normalize. do 3 f_equal. rewrite map_map. induction S as [|r rs Sr _ IH]; [reflexivity|].
+    cbn [map]. now rewrite rule_line_normalize, IH.
+  Qed.
+  Lemma flat_map_map_ext {A} (f : A -> list string) (g : A -> A) (l : list A) (P : A -> Prop) :
+    (forall a, P a -> f (g a) = f a) -> Forall P l -> flat_map f (map g l) = flat_map f l.
+  Proof. intros H HF. induction HF as [|a l Pa _ IH]; [reflexivity|]. cbn [flat_map map]. now rewrite H, IH. Qed.
+
+  Theorem export_normalize e : wf close1 e = true -> stable round close1 d e -> EXPORT (NORMALIZE e) = EXPORT e.
+  Proof.
+    intros W (SI & SO & SB). destruct (wf_parts e W) as (_ & _ & WI & WO & WB). destruct e as [nm de ins outs bs].
+    unfold export, normalize. cbn [fe_name fe_description fe_inputs fe_outputs fe_blocks] in *.
+    rewrite (flat_map_map_ext (export_input fmt close1 d) normi ins
+              (fun v => wf_input close1 v = true /\ Forall (stable_term round close1 d) (fi_terms v))).
+    rewrite (flat_map_map_ext (export_output fmt close1 d) normo outs
+              (fun v => wf_output close1 v = true /\ Forall (stable_term round close1 d) (fo_terms v))).
+    rewrite (flat_map_map_ext (export_block fmt close1 d) normb bs
+              (fun b => Forall (fun r => stable_h' (fr_weight r)) (fb_rules b))).
+    - reflexivity.
+    - apply export_block_normalize.
+    - exact SB.
+    - intros v [A B]. now apply export_output_normalize.
+    - rewrite Forall_forall in *. auto.
+    - intros v [A B]. now apply export_input_normalize.
+    - rewrite Forall_forall in *. auto.
+  Qed.
+
+  Theorem export_import_export_fixpoint e : wf close1 e = true -> stable round close1 d e ->
+    exists e2, IMPORT (EXPORT e) = Ok e2 /\ EXPORT e2 = EXPORT e.
+  Proof. intros W S. exists (NORMALIZE e). split; [now apply import_export|now apply export_normalize]. Qed.
+
+  (* ================================================================================================ representable engines *)
+  Local Notation rep_h' := (rep_h round close1 n_one d).
+  Lemma rep_map xs : Forall (rep_num round d) xs -> map (round d) xs = xs.
+  Proof. intros H. induction H as [|x xs Hx _ IH]; [reflexivity|]. cbn [map]. unfold rep_num in Hx. now rewrite Hx, IH. Qed.
+  Lemma rep_normh h : rep_h' h -> normh h = h.
+  Proof. unfold rep_h, norm_h. intros [->|[C R]]; [now rewrite close1_one|now rewrite C]. Qed.
+  Lemma rep_term_same t : rep_term round close1 n_one d t -> normt t = t.
+  Proof.
+    destruct t as [n c ps h|n xy h|n cs h|n f h]; cbn [rep_term normalize_term].
+    - intros [P H]. rewrite (rep_map ps P). f_equal. destruct (lookup_term c) as [r|]; [destruct (row_height r)|]; auto using rep_normh.
+    - intros [P H]. rewrite (rep_normh h H). f_equal. induction P as [|[x y] xy [Px Py] _ IH]; [reflexivity|].
+      cbn [map fst snd] in *. unfold rep_num in Px, Py. now rewrite Px, Py, IH.
+    - intros [P ->]. rewrite (rep_map cs P), close1_one, app_nil_r. reflexivity.
+    - intros ->. reflexivity.
+  Qed.
+  Lemma rep_terms_same ts : Forall (rep_term round close1 n_one d) ts -> map normt ts = ts.
+  Proof. intros H. induction H as [|t ts Ht _ IH]; [reflexivity|]. cbn [map]. now rewrite (rep_term_same t Ht), IH. Qed.
+  Lemma map_same {A} (f : A -> A) (P : A -> Prop) l : (forall a, P a -> f a = a) -> Forall P l -> map f l = l.
+  Proof. intros H HF. induction HF as [|a l Pa _ IH]; [reflexivity|]. cbn [map]. now rewrite (H a Pa), IH. Qed.
+
+  Theorem representable_same e : representable round close1 n_one d e -> NORMALIZE e = e.
+  Proof.
+    intros (RI & RO & RB). destruct e as [nm de ins outs bs]. unfold normalize. cbn [fe_inputs fe_outputs fe_blocks] in *.
+    f_equal.
+    - apply (map_same normi (rep_input round close1 n_one d) ins); [|exact RI].
+      intros [n de' en lo hi lk ts] (A & B & C). cbn [fi_min fi_max fi_terms] in *. unfold normalize_input, rep_num in *.
+      now rewrite A, B, (rep_terms_same ts C).
+    - apply (map_same normo (rep_output round close1 n_one d) outs); [|exact RO].
+      intros [n de' en lo hi lk ag df dv lp ts] (A & B & C & D). cbn [fo_min fo_max fo_default fo_terms] in *.
+      unfold normalize_output, rep_num in *. now rewrite A, B, C, (rep_terms_same ts D).
+    - apply (map_same normb (rep_block round close1 n_one d) bs); [|exact RB].
+      intros [n de' en cj dj im ac rs] (A & B). cbn [fb_activation fb_rules] in *. unfold normalize_block. f_equal.
+      + destruct ac as [a|]; [|reflexivity]. cbn [option_map]. f_equal.
+        destruct a; cbn [rep_activation normalize_activation] in *; unfold rep_num in A; now rewrite ?A.
+      + apply (map_same normr (rep_rule round close1 n_one d) rs); [|exact B].
+        intros [en' an cq w] [E H]. cbn [fr_enabled fr_weight] in *. unfold normalize_rule. cbn [fr_antecedent fr_consequent fr_weight].
+        now rewrite (rep_normh w H), E.
+  Qed.
+
+  (* the rule's `enabled` flag is not expressible: whatever the engine, every rule of the re-imported engine is enabled *)
+  Theorem import_export_rules_enabled e e2 : wf close1 e = true -> IMPORT (EXPORT e) = Ok e2 ->
+    Forall (fun b => Forall (fun r => fr_enabled r = true) (fb_rules b)) (fe_blocks e2).
+  Proof.
+    intros W H. rewrite import_export in H by assumption. injection H as <-. destruct e as [nm de ins outs bs].
+    cbn [normalize fe_blocks]. apply Forall_map. apply Forall_forall. intros [n de' en cj dj im ac rs] _.
+    cbn [normalize_block fb_rules]. apply Forall_map. apply Forall_forall. reflexivity.
+  Qed.
+
+  (* the exported lines contain no newline: "\n".join (export e) splits back into exactly these lines *)
+  Lemma plain_nonl s : str_forall plain s = true -> str_forall (fun c => negb (is_nl c)) s = true.
+  Proof. apply str_forall_impl. intros c. unfold plain. rewrite andb_true_iff. tauto. Qed.
+  Lemma render_blk_nonl b : blk_ok b -> Forall (fun l => str_forall (fun c => negb (is_nl c)) l = true) (render_blk b).
+  Proof.
+    destruct b as [[h n] ps]. intros (Hk & _ & Hn & Hp & _). cbn [render_blk].
+    destruct (key_parts h Hk) as (_ & _ & KP & _). destruct (value_parts n Hn) as (NP & _). constructor.
+    - apply plain_nonl. now apply kv_plain.
+    - apply Forall_map. eapply Forall_impl; [|exact Hp]. intros [k v] [Pk Pv]. cbn [fst snd] in *.
+      destruct (key_parts k Pk) as (_ & _ & KP' & _). destruct (value_parts v Pv) as (VP & _).
+      apply plain_nonl. unfold iline, kvline. cbn [fst snd]. rewrite str_forall_app. cbn [indent str_forall].
+      now rewrite kv_plain.
+  Qed.
+  Theorem export_no_newline e : wf close1 e = true ->
+    Forall (fun l => str_forall (fun c => negb (is_nl c)) l = true) (EXPORT e).
+  Proof.
+    intros W. rewrite export_blks by assumption. apply Forall_app. split; [|repeat constructor].
+    pose proof (all_blks_ok e W) as H. induction H as [|b bs Hb _ IH]; [constructor|].
+    cbn [flat_map]. apply Forall_app. split; [now apply render_blk_nonl|exact IH].
+  Qed.
+End RoundTrip.
+
+(* ================================================================================================ instances *)
+(* ---- the token instance (Model/Fll.v, TokNum): the assumptions hold for every closeness table *)
+Lemma nchar_roundtrip c : nchar_of_char (char_of_nchar c) = Some c.
+Proof. now destruct c. Qed.
+Lemma nchars_roundtrip l : nchars_of_string (string_of_nchars l) = Some l.
+Proof. induction l as [|c l IH]; [reflexivity|]. cbn [string_of_nchars nchars_of_string]. now rewrite nchar_roundtrip, IH. Qed.
+Lemma tok_roundtrip t : tok_of_string (string_of_tok t) = Some t.
+Proof.
+  destruct t as [c l]. unfold tok_of_string, string_of_tok. cbn [fst snd nchars_of_string].
+  now rewrite nchar_roundtrip, nchars_roundtrip.
+Qed.
+Lemma nchar_token c : negb (is_ws (char_of_nchar c)) && negb (is_hash (char_of_nchar c)) = true.
+Proof. now destruct c. Qed.
+Lemma tok_token t : tokenb (string_of_tok t) = true.
+Proof.
+  destruct t as [c l]. unfold tokenb, string_of_tok. cbn [fst snd nonempty String.eqb negb andb str_forall].
+  rewrite nchar_token. cbn [andb]. induction l as [|x l IH]; [reflexivity|]. cbn [string_of_nchars str_forall].
+  now rewrite nchar_token, IH.
+Qed.
+
+Section TokInstance.
+  Variable tbl : list string.
+  Variables one zero : string.
+  Lemma tn_parse_fmt d x : tn_parse tbl (tn_fmt d x) = Some (tn_round tbl d x).
+  Proof. unfold tn_parse, tn_fmt, tn_round. now rewrite tok_roundtrip. Qed.
+  Lemma tn_fmt_round d x : tn_fmt d (tn_round tbl d x) = tn_fmt d x.
+  Proof. reflexivity. Qed.
+  Lemma tn_round_idem d x : tn_round tbl d (tn_round tbl d x) = tn_round tbl d x.
+  Proof. reflexivity. Qed.
+  Lemma tn_fmt_token d x : tokenb (tn_fmt d x) = true.
+  Proof. apply tok_token. Qed.
+  Lemma tn_close1_one : tn_close1 (TN one true) = true.
+  Proof. unfold TN, tn_close1. now destruct (tok_of_string one). Qed.
+
+  Theorem tn_import_export d e : wf tn_close1 e = true ->
+    tn_import tbl one zero (tn_export d e) = Ok (tn_normalize tbl one d e).
+  Proof.
+    apply (import_export tnum tn_fmt (tn_parse tbl) (tn_round tbl) tn_close1 (TN "nan" false) (TN "inf" false) (TN "-inf" false)
+             (TN one true) (TN zero false) tn_parse_fmt tn_fmt_token).
+  Qed.
+  Theorem tn_export_normalize d e : wf tn_close1 e = true -> stable (tn_round tbl) tn_close1 d e ->
+    tn_export d (tn_normalize tbl one d e) = tn_export d e.
+  Proof. apply (export_normalize tnum tn_fmt (tn_round tbl) tn_close1 (TN one true) tn_fmt_round tn_close1_one). Qed.
+End TokInstance.
+
+(* ---- the three-number instance: the assumptions hold, the fixed point fails without `stable` *)
+Lemma n3_parse_fmt d x : n3_parse (n3_fmt d x) = Some (n3_round d x).
+Proof. now destruct x. Qed.
+Lemma n3_fmt_round d x : n3_fmt d (n3_round d x) = n3_fmt d x.
+Proof. now destruct x. Qed.
+Lemma n3_round_idem d x : n3_round d (n3_round d x) = n3_round d x.
+Proof. now destruct x. Qed.
+Lemma n3_fmt_token d x : tokenb (n3_fmt d x) = true.
+Proof. now destruct x. Qed.
+Lemma n3_close1_one : n3_close1 NB = true.
+Proof. reflexivity. Qed.
+
+(* ================================================================================================ accepted texts *)
+(* lines of a text split at newlines contain no newline *)
+Definition no_nl (c : ascii) : bool := negb (is_nl c).
+Definition nonl (s : string) : Prop := str_forall no_nl s = true.
+
+Lemma plain_split s : str_forall plain s = str_forall not_hash s && str_forall no_nl s.
+Proof. unfold plain. apply (str_forall_and not_hash no_nl). Qed.
+Lemma clean_line_props l : nonl l ->
+  str_forall plain (clean_line l) = true /\ lstrip (clean_line l) = clean_line l /\ rstrip (clean_line l) = clean_line l.
+Proof.
+  intros H. unfold clean_line. split; [|split; [apply strip_lclean|apply strip_rclean]].
+  rewrite plain_split, andb_true_iff. split.
+  - apply forall_strip, cut_comment_nohash.
+  - apply forall_strip, forall_cut_comment, H.
+Qed.
+Lemma clean_line_nonl l : nonl l -> nonl (clean_line l).
+Proof. intros H. destruct (clean_line_props l H) as (P & _). rewrite plain_split, andb_true_iff in P. apply P. Qed.
+Lemma key_value_value l kraw k v : nonl l -> key_value l = Ok (kraw, k, v) -> value_okb v = true.
+Proof.
+  intros H. unfold key_value. destruct (clean_line_props l H) as (P & _).
+  destruct (split_colon (clean_line l)) as [[k0 v0]|] eqn:E; [|discriminate]. intros [= <- <- <-].
+  destruct (forall_split_colon plain _ _ _ P E) as [_ Pv]. apply value_okb_intro.
+  - now apply forall_strip.
+  - apply strip_lclean.
+  - apply strip_rclean.
+Qed.
+
+Lemma fold_block_inv {S : Type} (f : string -> string -> string -> S -> result S) (P : S -> Prop) lines s s' :
+  Forall nonl lines ->
+  (forall kraw k v a a', value_okb v = true -> P a -> f kraw k v a = Ok a' -> P a') ->
+  P s -> fold_block f lines s = Ok s' -> P s'.
+Proof.
+  intros HL Hf. revert s. induction HL as [|l lines Hl _ IH]; intros s Ps; cbn [fold_block].
+  - now intros [= <-].
+  - destruct (String.eqb (clean_line l) ""); [now apply IH|].
+    destruct (key_value (clean_line l)) as [[[kraw k] v]|] eqn:E; [|discriminate]. cbn [bind].
+    destruct (f kraw k v s) as [a'|] eqn:F; [|discriminate]. cbn [bind]. apply IH.
+    apply (Hf kraw k v s a'); auto. eapply key_value_value; [|exact E]. now apply clean_line_nonl.
+Qed.
+
+(* ---- tails of right-stripped strings; the pieces of split *)
+Lemma rclean_tail c s : rstrip (String c s) = String c s -> rstrip s = s.
+Proof. cbn [rstrip]. destruct (String.eqb (rstrip s) "" && is_ws c); [discriminate|]. now intros [= ->]. Qed.
+Lemma rclean_lstrip s : rstrip s = s -> rstrip (lstrip s) = lstrip s.
+Proof.
+  induction s as [|c s IH]; [reflexivity|]. intros H. cbn [lstrip]. destruct (is_ws c); [|exact H].
+  apply IH. now apply rclean_tail in H.
+Qed.
+Lemma rclean_span_rest s : rstrip s = s -> rstrip (snd (span_tok s)) = snd (span_tok s).
+Proof.
+  induction s as [|c s IH]; [reflexivity|]. intros H. cbn [span_tok]. destruct (is_ws c); [exact H|].
+  destruct (span_tok s) as [t r] eqn:E. cbn [snd] in *. apply IH. now apply rclean_tail in H.
+Qed.
+Lemma span_tok_nows s : str_forall not_ws (fst (span_tok s)) = true.
+Proof.
+  induction s as [|c s IH]; [reflexivity|]. cbn [span_tok]. destruct (is_ws c) eqn:E; [reflexivity|].
+  destruct (span_tok s) as [t r]. cbn [fst str_forall] in *. unfold not_ws at 1. now rewrite E, IH.
+Qed.
+Lemma span_tok_nonempty c s : is_ws c = false -> fst (span_tok (String c s)) <> "".
+Proof. intros H. cbn [span_tok]. rewrite H. now destruct (span_tok s). Qed.
+Lemma span_tok_length s : (String.length (fst (span_tok s)) + String.length (snd (span_tok s)) = String.length s)%nat.
+Proof.
+  induction s as [|c s IH]; [reflexivity|]. cbn [span_tok]. destruct (is_ws c); [reflexivity|].
+  destruct (span_tok s) as [t r]. cbn [fst snd String.length] in *. lia.
+Qed.
+Lemma lstrip_length s : (String.length (lstrip s) <= String.length s)%nat.
+Proof. induction s as [|c s IH]; cbn; [lia|]. destruct (is_ws c); cbn; lia. Qed.
+Lemma nows_token t : t <> "" -> str_forall not_ws t = true -> str_forall not_hash t = true -> tokenb t = true.
+Proof.
+  intros H1 H2 H3. unfold tokenb. rewrite (proj2 (nonempty_true t) H1). cbn [andb].
+  rewrite (str_forall_and not_ws not_hash) . now rewrite H2, H3.
+Qed.
+
+Lemma split_max_elems n s : str_forall plain s = true -> rstrip s = s ->
+  Forall (fun t => value_okb t = true /\ t <> "") (split_max n s).
+Proof.
+  revert s. induction n as [|n IH]; intros s P R; cbn [split_max];
+    pose proof (forall_lstrip plain s P) as P1; pose proof (rclean_lstrip s R) as R1; pose proof (lstrip_idem s) as L1;
+    destruct (lstrip s) as [|c r] eqn:E; try constructor.
+  - split; [now apply value_okb_intro|discriminate].
+  - constructor.
+  - pose proof (lstrip_first _ L1) as W. cbn in W.
+    pose proof (span_tok_nows (String c r)) as TN. pose proof (span_tok_nonempty c r W) as TE.
+    pose proof (forall_span_tok plain _ P1) as [TP RP]. pose proof (rclean_span_rest _ R1) as RR.
+    destruct (span_tok (String c r)) as [t rest]. cbn [fst snd] in *. constructor.
+    + split; [|exact TE]. apply value_okb_intro; [exact TP| |now apply nows_rstrip].
+      destruct t as [|c' t']; [congruence|]. cbn [str_forall] in TN. unfold not_ws at 1 in TN.
+      rewrite andb_true_iff, negb_true_iff in TN. now apply lstrip_nows.
+    + now apply IH.
+Qed.
+Lemma split_max_tokens n s : (String.length s <= n)%nat -> str_forall not_hash s = true ->
+  Forall (fun t => tokenb t = true) (split_max n s).
+Proof.
+  revert s. induction n as [|n IH]; intros s L H; cbn [split_max];
+    pose proof (forall_lstrip not_hash s H) as H1; pose proof (lstrip_length s) as L1; pose proof (lstrip_idem s) as I1;
+    destruct (lstrip s) as [|c r] eqn:E; try constructor.
+  - cbn [String.length] in L1. lia.
+  - constructor.
+  - pose proof (lstrip_first _ I1) as W. cbn in W.
+    pose proof (span_tok_nows (String c r)) as TN. pose proof (span_tok_nonempty c r W) as TE.
+    pose proof (forall_span_tok not_hash _ H1) as [TP RP]. pose proof (span_tok_length (String c r)) as SL.
+    destruct (span_tok (String c r)) as [t rest]. cbn [fst snd] in *. constructor.
+    + now apply nows_token.
+    + apply IH; [|exact RP]. destruct t; [congruence|]. cbn [String.length] in *. lia.
+Qed.
+Lemma split_ws_tokens s : str_forall not_hash s = true -> Forall (fun t => tokenb t = true) (split_ws s).
+Proof. intros H. unfold split_ws. now apply split_max_tokens. Qed.
+
+Section Accept.
+  Variable num : Type.
+  Variable parse : string -> option num.
+  Variable close1 : num -> bool.
+  Variables n_nan n_pinf n_ninf n_one n_zero : num.
+  Hypothesis close1_one : close1 n_one = true.
+
+  Local Notation tok := (fun t : string => tokenb t = true).
+
+  Ltac inv_bind_as H x E :=
+    match type of H with
+    | bind ?r _ = Ok _ => destruct r as [x|] eqn:E; cbn [bind] in H; [|discriminate H]
+    end.
+  Tactic Notation "inv_bind" hyp(H) "as" ident(x) ident(E) := inv_bind_as H x E.
+  Tactic Notation "inv_bind" hyp(H) := let x := fresh "x" in let E := fresh "E" in inv_bind_as H x E.
+
+  (* ---- terms *)
+  Lemma parse_shape_params_wf arity hh p ps h :
+    parse_shape_params parse n_one arity hh p = Ok (ps, h) -> List.length ps = arity /\ (hh = true \/ h = n_one).
+  Proof.
+    unfold parse_shape_params. intros H. inv_bind H as l E.
+    set (vals' := if hh && Nat.eqb (List.length l) arity then l ++ [n_one] else l) in *.
+    destruct (Nat.eqb_spec (List.length vals') (arity + (if hh then 1 else 0))) as [L|_]; [|discriminate].
+    injection H as <- <-. split.
+    - apply firstn_length_le. lia.
+    - destruct hh; auto.
+  Qed.
+  Lemma construct_term_wf c name params t :
+    ident_ok name = true ->
+    match params with Some p => value_okb p = true /\ p <> "" | None => True end ->
+    construct_term parse n_nan n_one c name params = Ok t -> wf_term close1 t = true.
+  Proof.
+    intros HN HP. unfold construct_term.
+    destruct (String.eqb c "Discrete") eqn:E1.
+    { destruct params as [p|].
+      - unfold configure_discrete. destruct (Nat.even _); intros H; repeat inv_bind H; injection H as <-;
+          unfold wf_term; cbn [ft_name]; now rewrite HN.
+      - intros [= <-]. unfold wf_term. cbn [ft_name]. now rewrite HN. }
+    destruct (String.eqb c "Linear") eqn:E2.
+    { destruct params as [p|]; intros H; [inv_bind H|]; injection H as <-; unfold wf_term; cbn [ft_name]; now rewrite HN. }
+    destruct (String.eqb c "Function") eqn:E3.
+    { destruct params as [p|]; [|discriminate]. intros [= <-]. destruct HP as [V NE]. unfold wf_term. cbn [ft_name].
+      rewrite HN. cbn [andb]. change (value_ok p) with (value_okb p). rewrite V. now apply nonempty_true. }
+    destruct (lookup_term c) as [r|] eqn:L; [|discriminate].
+    assert (SP : is_special_class c = false) by (unfold is_special_class; now rewrite E1, E2, E3).
+    destruct params as [p|].
+    - intros H. inv_bind H as ph E. destruct ph as [ps h]. injection H as <-. apply parse_shape_params_wf in E as [EL EH].
+      unfold wf_term. cbn [ft_name]. rewrite HN, SP, L, EL, Nat.eqb_refl. cbn [negb andb].
+      destruct EH as [->| ->]; [reflexivity|]. rewrite close1_one. apply orb_true_r.
+    - intros [= <-]. unfold wf_term. cbn [ft_name]. rewrite HN, SP, L, repeat_length, Nat.eqb_refl, close1_one.
+      cbn [negb andb]. apply orb_true_r.
+  Qed.
+  Lemma import_term_wf kraw v t : value_okb v = true -> import_term parse n_nan n_one kraw v = Ok t -> wf_term close1 t = true.
+  Proof.
+    intros V. unfold import_term. destruct (negb (String.eqb kraw "term")); [discriminate|].
+    destruct (value_parts v V) as (P & _ & R). pose proof (split_max_elems 2 v P R) as HE.
+    destruct (split_max 2 v) as [|n [|c [|p [|]]]]; try discriminate.
+    - apply construct_term_wf; [apply ident_ok_as_identifier|exact I].
+    - apply construct_term_wf; [apply ident_ok_as_identifier|].
+      inversion_clear HE as [|? ? _ HE']. inversion_clear HE' as [|? ? _ HE'']. inversion_clear HE'' as [|? ? HP _]. exact HP.
+  Qed.
+
+  (* ---- rules *)
+  Definition okA (t : string) : Prop := tokenb t = true /\ String.eqb t "then" = false.
+  Definition okC (t : string) : Prop := tokenb t = true /\ String.eqb t "with" = false.
+  Lemma rule_fsm_inv toks st ante cq w st' ante' cq' w' :
+    Forall tok toks -> Forall okA ante -> Forall okC cq ->
+    rule_fsm parse toks st ante cq w = Ok (st', ante', cq', w') -> Forall okA ante' /\ Forall okC cq'.
+  Proof.
+    intros HT. revert st ante cq w. induction HT as [|t toks Ht _ IH]; intros st ante cq w HA HC; cbn [rule_fsm].
+    - intros [= <- <- <- <-]. auto.
+    - destruct st.
+      + destruct (String.eqb t "if"); [now apply IH|discriminate].
+      + destruct (String.eqb t "then") eqn:E; [now apply IH|]. apply IH; [|exact HC].
+        apply Forall_app. split; [exact HA|]. repeat constructor; assumption.
+      + destruct (String.eqb t "with") eqn:E; [now apply IH|]. apply IH; [exact HA|].
+        apply Forall_app. split; [exact HC|]. repeat constructor; assumption.
+      + destruct (parse t); [now apply IH|discriminate].
+      + discriminate.
+  Qed.
+  Lemma import_rule_wf kraw v r : import_rule parse n_one kraw v = Ok r -> wf_rule r = true.
+  Proof.
+    unfold import_rule. destruct (negb (String.eqb kraw "rule")); [discriminate|]. unfold parse_rule. intros H. inv_bind H as q E.
+    destruct q as [[[st ante] cq] w].
+    apply rule_fsm_inv in E as [HA HC]; [| apply split_ws_tokens, cut_comment_nohash | constructor | constructor].
+    assert (G : ante <> [] -> cq <> [] -> wf_rule {| fr_enabled := true; fr_antecedent := ante; fr_consequent := cq; fr_weight := w |} = true).
+    { intros NA NC. unfold wf_rule. cbn [fr_antecedent fr_consequent]. rewrite !andb_true_iff. repeat split.
+      - destruct ante; [congruence|reflexivity].
+      - destruct cq; [congruence|reflexivity].
+      - apply forallb_forall. intros t Ht. rewrite Forall_forall in HA. destruct (HA t Ht) as [A B].
+        change (token_ok t) with (tokenb t). now rewrite A, B.
+      - apply forallb_forall. intros t Ht. rewrite Forall_forall in HC. destruct (HC t Ht) as [A B].
+        change (token_ok t) with (tokenb t). now rewrite A, B. }
+    destruct st; try discriminate; destruct ante as [|a ante]; try discriminate; destruct cq as [|c cq]; try discriminate;
+      injection H as <-; apply G; discriminate.
+  Qed.
+
+  (* ---- blocks *)
+  Lemma forallb_app1 {A} (f : A -> bool) l x : forallb f l = true -> f x = true -> forallb f (l ++ [x]) = true.
+  Proof. intros H1 H2. rewrite forallb_app, H1. cbn. now rewrite H2. Qed.
+
+  Definition input_inv (v : fll_input num) : Prop :=
+    value_okb (fi_description v) = true /\ forallb (wf_term close1) (fi_terms v) = true.
+  Lemma input_line_inv kraw k v a a' : value_okb v = true -> input_inv a ->
+    input_line parse n_nan n_one kraw k v a = Ok a' -> input_inv a'.
+  Proof.
+    intros V [D T]. destruct a as [nm de en lo hi lk ts]. unfold input_line, input_inv in *.
+    cbn [fi_description fi_terms] in *.
+    repeat (match goal with |- context [if String.eqb k ?s then _ else _] => destruct (String.eqb k s) end);
+      intros H; try discriminate; try (inv_bind H as t Et); injection H as <-; cbn [fi_description fi_terms]; auto.
+    split; [assumption|]. apply forallb_app1; [assumption|]. apply (import_term_wf kraw v t V Et).
+  Qed.
+  Lemma import_input_wf blk v : Forall nonl blk -> import_input parse n_nan n_pinf n_ninf n_one blk = Ok v -> wf_input close1 v = true.
+  Proof.
+    intros HL. unfold import_input. intros H. inv_bind H as a E. destruct a as [nm de en lo hi lk ts]. injection H as <-.
+    apply (fold_block_inv _ input_inv) in E; [| assumption | apply input_line_inv | split; reflexivity].
+    destruct E as [D T]. unfold wf_input. cbn [fi_name fi_description fi_terms] in *.
+    rewrite ident_ok_as_identifier. change (value_ok de) with (value_okb de). now rewrite D, T.
+  Qed.
+
+  Definition output_inv (v : fll_output num) : Prop :=
+    value_okb (fo_description v) = true /\ forallb (wf_term close1) (fo_terms v) = true.
+  Lemma output_line_inv kraw k v a a' : value_okb v = true -> output_inv a ->
+    output_line parse n_nan n_one kraw k v a = Ok a' -> output_inv a'.
+  Proof.
+    intros V [D T]. destruct a as [nm de en lo hi lk ag df dv lp ts]. unfold output_line, output_inv in *.
+    cbn [fo_description fo_terms] in *.
+    repeat (match goal with |- context [if String.eqb k ?s then _ else _] => destruct (String.eqb k s) end);
+      intros H; try discriminate; try (inv_bind H as t Et); injection H as <-; cbn [fo_description fo_terms]; auto.
+    split; [assumption|]. apply forallb_app1; [assumption|]. apply (import_term_wf kraw v t V Et).
+  Qed.
+  Lemma import_output_wf blk v : Forall nonl blk -> import_output parse n_nan n_pinf n_ninf n_one blk = Ok v -> wf_output close1 v = true.
+  Proof.
+    intros HL. unfold import_output. intros H. inv_bind H as a E. destruct a as [nm de en lo hi lk ag df dv lp ts]. injection H as <-.
+    apply (fold_block_inv _ output_inv) in E; [| assumption | apply output_line_inv | split; reflexivity].
+    destruct E as [D T]. unfold wf_output. cbn [fo_name fo_description fo_terms] in *.
+    rewrite ident_ok_as_identifier. change (value_ok de) with (value_okb de). now rewrite D, T.
+  Qed.
+
+  Lemma block_line_inv kraw k v a a' : value_okb v = true -> wf_block a = true ->
+    block_line parse n_one n_zero kraw k v a = Ok a' -> wf_block a' = true.
+  Proof.
+    intros V W. destruct a as [nm de en cj dj im ac rs]. unfold block_line, wf_block in *.
+    cbn [fb_name fb_description fb_rules] in *. rewrite !andb_true_iff in W. destruct W as [[N D] R].
+    change (value_ok nm) with (value_okb nm) in N. change (value_ok de) with (value_okb de) in D.
+    repeat (match goal with |- context [if String.eqb k ?s then _ else _] => destruct (String.eqb k s) end);
+      intros H; try discriminate; try (inv_bind H as t Et); injection H as <-; cbn [fb_name fb_description fb_rules];
+      change (value_ok v) with (value_okb v); change (value_ok nm) with (value_okb nm); change (value_ok de) with (value_okb de);
+      rewrite ?V, ?N, ?D, ?R; try reflexivity.
+    cbn [andb]. apply forallb_app1; [assumption|]. apply (import_rule_wf kraw v t Et).
+  Qed.
+  Lemma import_block_wf blk b : Forall nonl blk -> import_block parse n_one n_zero blk = Ok b -> wf_block b = true.
+  Proof.
+    intros HL. unfold import_block. intros E.
+    apply (fold_block_inv _ (fun b => wf_block b = true)) in E; [assumption | assumption | apply block_line_inv | reflexivity].
+  Qed.
+
+  (* ---- the engine *)
+  Lemma engine_line_inv kraw k v a a' : value_okb v = true -> wf close1 a = true -> engine_line kraw k v a = Ok a' -> wf close1 a' = true.
+  Proof.
+    intros V W. destruct a as [nm de ins outs bs]. unfold engine_line, wf in *.
+    cbn [fe_name fe_description fe_inputs fe_outputs fe_blocks] in *. rewrite !andb_true_iff in W.
+    destruct W as [[[[N D] I] O] B].
+    repeat (match goal with |- context [if String.eqb k ?s then _ else _] => destruct (String.eqb k s) end);
+      intros H; try discriminate; injection H as <-; cbn [fe_name fe_description fe_inputs fe_outputs fe_blocks];
+      change (value_ok v) with (value_okb v); rewrite ?V, ?N, ?D, ?I, ?O, ?B; reflexivity.
+  Qed.
+  Local Notation LOOP := (engine_loop parse n_nan n_pinf n_ninf n_one n_zero).
+  Local Notation PROC := (process parse n_nan n_pinf n_ninf n_one n_zero).
+  Lemma process_wf comp blk e e' : Forall nonl blk -> wf close1 e = true -> PROC comp blk e = Ok e' -> wf close1 e' = true.
+  Proof.
+    intros HL W. unfold process. destruct e as [nm de ins outs bs].
+    pose proof W as W0. unfold wf in W0. cbn [fe_name fe_description fe_inputs fe_outputs fe_blocks] in W0.
+    rewrite !andb_true_iff in W0. destruct W0 as [[[[N D] I] O] B].
+    destruct (String.eqb comp "Engine").
+    { intros E. apply (fold_block_inv _ (fun a => wf close1 a = true)) in E; auto. apply engine_line_inv. }
+    destruct (String.eqb comp "InputVariable").
+    { intros H. inv_bind H as v E. injection H as <-. apply import_input_wf in E; [|assumption].
+      unfold wf. cbn [fe_name fe_description fe_inputs fe_outputs fe_blocks]. rewrite N, D, O, B, (forallb_app1 _ _ _ I E). reflexivity. }
+    destruct (String.eqb comp "OutputVariable").
+    { intros H. inv_bind H as v E. injection H as <-. apply import_output_wf in E; [|assumption].
+      unfold wf. cbn [fe_name fe_description fe_inputs fe_outputs fe_blocks]. rewrite N, D, I, B, (forallb_app1 _ _ _ O E). reflexivity. }
+    destruct (String.eqb comp "RuleBlock").
+    { intros H. inv_bind H as v E. injection H as <-. apply import_block_wf in E; [|assumption].
+      unfold wf. cbn [fe_name fe_description fe_inputs fe_outputs fe_blocks]. rewrite N, D, I, O, (forallb_app1 _ _ _ B E). reflexivity. }
+    now intros [= <-].
+  Qed.
+  Lemma loop_wf lines comp blk e e' : Forall nonl lines -> Forall nonl blk -> wf close1 e = true ->
+    LOOP lines comp blk e = Ok e' -> wf close1 e' = true.
+  Proof.
+    intros HL. revert comp blk e. induction HL as [|l lines Hl _ IH]; intros comp blk e HB W; cbn [engine_loop].
+    - destruct (String.eqb comp ""); [now intros [= <-]|]. now apply process_wf.
+    - destruct (String.eqb (clean_line l) ""); [now apply IH|].
+      destruct (key_value (clean_line l)) as [[[kraw k] v]|]; [|discriminate]. cbn [bind].
+      pose proof (clean_line_nonl l Hl) as CL. destruct (is_header k).
+      + destruct (String.eqb comp "").
+        * cbn [bind]. apply IH; [repeat constructor; assumption|assumption].
+        * destruct (PROC comp blk e) as [e1|] eqn:E; [|discriminate]. cbn [bind].
+          apply IH; [repeat constructor; assumption|]. eapply process_wf; eauto.
+      + apply IH; [|assumption]. apply Forall_app. split; [assumption|repeat constructor; assumption].
+  Qed.
+  Theorem import_yields_wf lines e : Forall nonl lines ->
+    import_ parse n_nan n_pinf n_ninf n_one n_zero lines = Ok e -> wf close1 e = true.
+  Proof. intros HL. unfold import_. apply loop_wf; [assumption|constructor|reflexivity]. Qed.
+End Accept.
+
+(* ================================================================================================ accepted texts normalise *)
+Section Accepted.
+  Variable num : Type.
+  Variable fmt : nat -> num -> string.
+  Variable parse : string -> option num.
+  Variable round : nat -> num -> num.
+  Variable close1 : num -> bool.
+  Variables n_nan n_pinf n_ninf n_one n_zero : num.
+  Hypothesis parse_fmt : forall d x, parse (fmt d x) = Some (round d x).
+  Hypothesis fmt_round : forall d x, fmt d (round d x) = fmt d x.
+  Hypothesis fmt_token : forall d x, tokenb (fmt d x) = true.
+  Hypothesis close1_one : close1 n_one = true.
+  Local Notation IMPORT := (import_ parse n_nan n_pinf n_ninf n_one n_zero).
+
+  (* any text the importer accepts is mapped by one export/import cycle to the normal form of what was read … *)
+  Theorem accepted_text_normalises lines e d : Forall nonl lines -> IMPORT lines = Ok e ->
+    IMPORT (export fmt close1 d e) = Ok (normalize round close1 n_one d e).
+  Proof.
+    intros HL H. apply import_export; auto. eapply import_yields_wf; eauto.
+  Qed.
+  (* … and the export of that normal form is the same text again, provided the printed heights / weights stay
+     outside the tolerance of 1 after rounding *)
+  Theorem accepted_text_fixed_point lines e d : Forall nonl lines -> IMPORT lines = Ok e -> stable round close1 d e ->
+    exists e2, IMPORT (export fmt close1 d e) = Ok e2 /\ export fmt close1 d e2 = export fmt close1 d e.
+  Proof.
+    intros HL H S. eapply export_import_export_fixpoint; eauto. eapply import_yields_wf; eauto.
+  Qed.
+End Accepted.
+
+(* ================================================================================================ the assumptions as one predicate *)
+(* A-fmt (DESIGN §4): "%.{d}f" formatting followed by float() yields the number denoted by the printed text (`round`);
+   printing does not distinguish a number from its rounding; rounding is idempotent; printed numbers contain no
+   whitespace and no "#"; and 1.0 is within the tolerance of 1. *)
+Definition A_fmt {num : Type} (fmt : nat -> num -> string) (parse : string -> option num) (round : nat -> num -> num)
+  (close1 : num -> bool) (one : num) : Prop :=
+  (forall d x, parse (fmt d x) = Some (round d x)) /\ (forall d x, fmt d (round d x) = fmt d x)
+  /\ (forall d x, round d (round d x) = round d x) /\ (forall d x, tokenb (fmt d x) = true) /\ close1 one = true.
+
+Lemma tn_A_fmt tbl one : A_fmt tn_fmt (tn_parse tbl) (tn_round tbl) tn_close1 (TN one true).
+Proof.
+  repeat split; auto using tn_parse_fmt, tn_fmt_token, tn_close1_one.
+Qed.
+Lemma n3_A_fmt : A_fmt n3_fmt n3_parse n3_round n3_close1 NB.
+Proof. repeat split; auto using n3_parse_fmt, n3_fmt_round, n3_round_idem, n3_fmt_token. Qed.
+
+Section Final.
+  Variable num : Type.
+  Variable fmt : nat -> num -> string.
+  Variable parse : string -> option num.
+  Variable round : nat -> num -> num.
+  Variable close1 : num -> bool.
+  Variables n_nan n_pinf n_ninf n_one n_zero : num.
+  Hypothesis A : A_fmt fmt parse round close1 n_one.
+  Local Notation IMPORT := (import_ parse n_nan n_pinf n_ninf n_one n_zero).
+  Local Notation EXPORT := (export fmt close1).
+  Local Notation NORMALIZE := (normalize round close1 n_one).
+
+  Theorem final_import_export d e : wf close1 e = true -> IMPORT (EXPORT d e) = Ok (NORMALIZE d e).
+  Proof. destruct A as (A1 & A2 & A3 & A4 & A5). now apply import_export. Qed.
+  Theorem final_export_normalize d e : wf close1 e = true -> stable round close1 d e -> EXPORT d (NORMALIZE d e) = EXPORT d e.
+  Proof. destruct A as (A1 & A2 & A3 & A4 & A5). now apply export_normalize. Qed.
+  Theorem final_fixpoint d e : wf close1 e = true -> stable round close1 d e ->
+    exists e2, IMPORT (EXPORT d e) = Ok e2 /\ EXPORT d e2 = EXPORT d e.
+  Proof. destruct A as (A1 & A2 & A3 & A4 & A5). now apply export_import_export_fixpoint. Qed.
+  Theorem final_import_yields_wf lines e : Forall nonl lines -> IMPORT lines = Ok e -> wf close1 e = true.
+  Proof. destruct A as (A1 & A2 & A3 & A4 & A5). now apply import_yields_wf. Qed.
+  Theorem final_accepted_text_normalises lines e d : Forall nonl lines -> IMPORT lines = Ok e ->
+    IMPORT (EXPORT d e) = Ok (NORMALIZE d e).
+  Proof. destruct A as (A1 & A2 & A3 & A4 & A5). now apply (accepted_text_normalises num fmt parse round). Qed.
+  Theorem final_accepted_text_fixed_point lines e d : Forall nonl lines -> IMPORT lines = Ok e -> stable round close1 d e ->
+    exists e2, IMPORT (EXPORT d e) = Ok e2 /\ EXPORT d e2 = EXPORT d e.
+  Proof. destruct A as (A1 & A2 & A3 & A4 & A5). now apply (accepted_text_fixed_point num fmt parse round). Qed.
+  Theorem final_representable_same d e : representable round close1 n_one d e -> NORMALIZE d e = e.
+  Proof. destruct A as (A1 & A2 & A3 & A4 & A5). now apply representable_same. Qed.
+  Theorem final_representable_roundtrip d e : wf close1 e = true -> representable round close1 n_one d e ->
+    IMPORT (EXPORT d e) = Ok e.
+  Proof. intros W R. rewrite final_import_export by assumption. f_equal. now apply final_representable_same. Qed.
+  Theorem final_export_no_newline d e : wf close1 e = true -> Forall nonl (EXPORT d e).
+  Proof. destruct A as (A1 & A2 & A3 & A4 & A5). now apply export_no_newline. Qed.
+  Theorem final_rules_enabled d e e2 : wf close1 e = true -> IMPORT (EXPORT d e) = Ok e2 ->
+    Forall (fun b => Forall (fun r => fr_enabled r = true) (fb_rules b)) (fe_blocks e2).
+  Proof. destruct A as (A1 & A2 & A3 & A4 & A5). now apply (import_export_rules_enabled num fmt parse round close1 n_nan n_pinf n_ninf n_one n_zero A1 A4 d e). Qed.
+End Final.
